@@ -1,741 +1,1197 @@
-import PMV.Model.Shaper
-import PMV.Model.ItemOps
-import PMV.Lemmas.Ravel
-import PMV.Lemmas.AxisPerm
-import PMV.Lemmas.AxisOps
+import PMV.Lemmas.C15Calls
+import PMV.Lemmas.Bcast
 /-
-  C15 — reshaping and item-restructuring operations are pure relabelings.
-  Property theorems.  The helper developments are in PMV/Lemmas/{Ravel,AxisPerm,AxisOps}.lean.
+  C15 — reshaping and item-restructuring operations are pure relabelings: OBJECT-LEVEL theorems.
+  For the code-shaped functions the driver executes (`Shaper.reshape`, `flatten`, `swapAxes`,
+  `rollAxis`, `moveAxis` on objects WITH their derivative dictionaries) the result is the input
+  re-indexed by ONE map `π` on the leading part: values, mask and EVERY derivative follow the same
+  `π`; class, numerator, denominator and the item part of every index are untouched.
+  By induction over the derivative list; the call-level facts are in PMV/Lemmas/C15Calls.lean.
 -/
 namespace PMV.C15
 open PMV PMV.NpShape PMV.Shaper PMV.ItemOps
 
-/-! ## 1. argument normalisation: equals NumPy's reading of the arguments, rejects what NumPy
-       rejects, and is idempotent (so the recursive calls on derivatives use the same map) -/
+variable {α : Type}
 
-theorem normAxis_of_nonneg {n : Nat} {b : Int} (h0 : 0 ≤ b) (h1 : b < n) : NpShape.normAxis n b = .ok b.toNat := by
-  unfold NpShape.normAxis
-  rw [if_pos ⟨by omega, h1⟩, if_neg (by omega)]
+/-! ## well-formed objects and the re-indexing relation -/
 
-theorem emod_of_range {n : Nat} {a : Int} (h0 : -(n : Int) ≤ a) (h1 : a < n) :
-    a % (n : Int) = if a < 0 then a + n else a := by
-  split
-  · rw [← Int.add_emod_right, Int.emod_eq_of_lt (by omega) (by omega)]
-  · exact Int.emod_eq_of_lt (by omega) h1
+/-- the invariant every constructed object satisfies: the values array spans `shape ++ numer ++ denom`
+    and an array mask spans the leading shape -/
+structure WF0 (q : Q0 α) : Prop where
+  vshape : q.vals.shape = q.shape ++ q.numer ++ q.denom
+  mshape : ∀ a, q.mask = .arr a → a.shape = q.shape
 
-/-- `swap_axes` accepts exactly the axes NumPy accepts and reads them as NumPy does -/
-theorem swapNorm_ok {n : Nat} {ax1 ax2 b1 b2 : Int} (h : swapNorm n ax1 ax2 = .ok (b1, b2)) :
-    NpShape.normAxis n ax1 = .ok b1.toNat ∧ NpShape.normAxis n ax2 = .ok b2.toNat ∧
-      0 ≤ b1 ∧ b1 < n ∧ 0 ≤ b2 ∧ b2 < n := by
-  unfold swapNorm at h
-  simp only at h
-  by_cases c1 : ax1 < -(n : Int) ∨ ax1 ≥ n
-  · rw [if_pos c1] at h; cases h
-  rw [if_neg c1] at h
-  by_cases c2 : ax2 < -(n : Int) ∨ ax2 ≥ n
-  · rw [if_pos c2] at h; cases h
-  rw [if_neg c2] at h
-  injection h with h; injection h with e1 e2
-  have g1 : -(n : Int) ≤ ax1 ∧ ax1 < n := by omega
-  have g2 : -(n : Int) ≤ ax2 ∧ ax2 < n := by omega
-  have r1 := emod_of_range g1.1 g1.2
-  have r2 := emod_of_range g2.1 g2.2
-  subst e1 e2
-  unfold NpShape.normAxis
-  rw [if_pos g1, if_pos g2, r1, r2]
-  refine ⟨rfl, rfl, ?_⟩
-  split <;> split <;> omega
+/-- an object with derivatives: each derivative is well-formed, has the object's leading shape and numerator -/
+structure WF (q : Q α) : Prop where
+  base : WF0 q.base
+  derivs : ∀ kd ∈ q.derivs, WF0 kd.2 ∧ kd.2.shape = q.base.shape ∧ kd.2.numer = q.base.numer
 
-/-- illegal axes are rejected with ValueError, and they are exactly those NumPy rejects -/
-theorem swapNorm_error {n : Nat} {ax1 ax2 : Int} {e : Err} (h : swapNorm n ax1 ax2 = .error e) :
-    e = .value ∧ (NpShape.normAxis n ax1 = .error .axis ∨ NpShape.normAxis n ax2 = .error .axis) := by
-  unfold swapNorm at h
-  simp only at h
-  unfold NpShape.normAxis
-  by_cases c1 : ax1 < -(n : Int) ∨ ax1 ≥ n
-  · rw [if_pos c1] at h; injection h with h
-    exact ⟨h.symm, Or.inl (by rw [if_neg (by omega)])⟩
-  rw [if_neg c1] at h
-  by_cases c2 : ax2 < -(n : Int) ∨ ax2 ≥ n
-  · rw [if_pos c2] at h; injection h with h
-    exact ⟨h.symm, Or.inr (by rw [if_neg (by omega)])⟩
-  rw [if_neg c2] at h; cases h
+/-- `q'` is `q` with its LEADING index re-labelled by `π` onto the leading shape `s'`:
+    same class, numerator, denominator; element `(i, k)` of `q'` is element `(π i, k)` of `q`
+    (the item index `k` is untouched); mask bit `i` of `q'` is mask bit `π i` of `q`. -/
+structure LeadReindex (π : Index → Index) (s' : Shape) (q q' : Q0 α) : Prop where
+  cls : q'.cls = q.cls
+  shape : q'.shape = s'
+  numer : q'.numer = q.numer
+  denom : q'.denom = q.denom
+  vals : ∀ i k : Index, Valid s' i → Valid q.item k → q'.vals.get (i ++ k) = q.vals.get (π i ++ k)
+  mask : ∀ i : Index, Valid s' i → q'.mask.at i = q.mask.at (π i)
+  wf : WF0 q'
 
-/-- norm_idem (swap_axes): the normalised axes are a fixed point of the normalisation -/
-theorem swapNorm_idem {n : Nat} {ax1 ax2 b1 b2 : Int} (h : swapNorm n ax1 ax2 = .ok (b1, b2)) :
-    swapNorm n b1 b2 = .ok (b1, b2) := by
-  obtain ⟨_, _, h1, h2, h3, h4⟩ := swapNorm_ok h
-  unfold swapNorm
-  simp only
-  rw [if_neg (by omega), if_neg (by omega), Int.emod_eq_of_lt h1 h2, Int.emod_eq_of_lt h3 h4]
+/-- the whole object: base and every derivative (same keys, same order) are re-indexed by the SAME `π` -/
+def ObjReindex (π : Index → Index) (s' : Shape) (q r : Q α) : Prop :=
+  LeadReindex π s' q.base r.base ∧
+  List.Forall₂ (fun kd kd' => kd.1 = kd'.1 ∧ LeadReindex π s' kd.2 kd'.2) q.derivs r.derivs
 
-example : swapNorm 3 (-1) 0 = .ok (2, 0) ∧ swapNorm 3 2 0 = .ok (2, 0) := by decide
+theorem LeadReindex.refl {q : Q0 α} (hwf : WF0 q) (π : Index → Index) (hπ : ∀ i, Valid q.shape i → π i = i) :
+    LeadReindex π q.shape q q :=
+  ⟨rfl, rfl, rfl, rfl, fun i k hi _ => by rw [hπ i hi], fun i hi => by rw [hπ i hi], hwf⟩
 
-/-- `roll_axis` (repaired) reads `axis` and `start` as `numpy.rollaxis` does -/
-theorem rollNorm_ok {n : Nat} {axis start a1 a2 : Int} (h : rollNorm n axis start = .ok (a1, a2)) :
-    NpShape.normAxis n axis = .ok a1.toNat ∧ a2 = (if start < 0 then start + n else start) ∧
-      0 ≤ a1 ∧ a1 < n ∧ 0 ≤ a2 ∧ a2 ≤ n := by
-  unfold rollNorm at h
-  simp only at h
-  generalize hA : (if axis < 0 then axis + (n : Int) else axis) = A at h
-  generalize hS : (if start < 0 then start + (n : Int) else start) = S at h
-  by_cases c1 : A < 0 ∨ A ≥ n
-  · rw [if_pos c1] at h; cases h
-  rw [if_neg c1] at h
-  by_cases c2 : S < 0 ∨ S ≥ (n : Int) + 1
-  · rw [if_pos c2] at h; cases h
-  rw [if_neg c2] at h
-  injection h with h; injection h with e1 e2
-  subst e1 e2
-  unfold NpShape.normAxis
-  refine ⟨?_, rfl, by omega, by omega, by omega, by omega⟩
-  have : -(n : Int) ≤ axis ∧ axis < n := by split at hA <;> omega
-  rw [if_pos this, hA]
+theorem LeadReindex.trans {π₁ π₂ : Index → Index} {s₁ s₂ : Shape} {q q₁ q₂ : Q0 α}
+    (h₁ : LeadReindex π₁ s₁ q q₁) (h₂ : LeadReindex π₂ s₂ q₁ q₂)
+    (hmap : ∀ i, Valid s₂ i → Valid s₁ (π₂ i)) : LeadReindex (fun i => π₁ (π₂ i)) s₂ q q₂ := by
+  have hitem : q₁.item = q.item := by unfold Q0.item; rw [h₁.numer, h₁.denom]
+  refine ⟨h₂.cls.trans h₁.cls, h₂.shape, h₂.numer.trans h₁.numer, h₂.denom.trans h₁.denom, ?_, ?_, h₂.wf⟩
+  · intro i k hi hk
+    rw [h₂.vals i k hi (hitem ▸ hk), h₁.vals _ k (hmap i hi) hk]
+  · intro i hi
+    rw [h₂.mask i hi, h₁.mask _ (hmap i hi)]
 
-theorem rollNorm_error {n : Nat} {axis start : Int} {e : Err} (h : rollNorm n axis start = .error e) :
-    e = .value ∧ (NpShape.normAxis n axis = .error .axis ∨
-      ¬ (0 ≤ (if start < 0 then start + (n : Int) else start) ∧ (if start < 0 then start + (n : Int) else start) < n + 1)) := by
-  unfold rollNorm at h
-  simp only at h
-  generalize hA : (if axis < 0 then axis + (n : Int) else axis) = A at h
-  generalize hS : (if start < 0 then start + (n : Int) else start) = S at h
-  by_cases c1 : A < 0 ∨ A ≥ n
-  · rw [if_pos c1] at h; injection h with h
-    refine ⟨h.symm, Or.inl ?_⟩
-    unfold NpShape.normAxis
-    rw [if_neg]
-    split at hA <;> omega
-  rw [if_neg c1] at h
-  by_cases c2 : S < 0 ∨ S ≥ (n : Int) + 1
-  · rw [if_pos c2] at h; injection h with h
-    exact ⟨h.symm, Or.inr (by omega)⟩
-  rw [if_neg c2] at h; cases h
+theorem append3_inj {a b c a' b' c' : List Nat} (h : a ++ b ++ c = a' ++ b' ++ c')
+    (hb : b.length = b'.length) (hc : c.length = c'.length) : a = a' ∧ b = b' ∧ c = c' := by
+  obtain ⟨h1, h2⟩ := List.append_inj' h hc
+  obtain ⟨h3, h4⟩ := List.append_inj' h1 hb
+  exact ⟨h3, h4, h2⟩
 
-/-- norm_idem (roll_axis): `deriv.roll_axis(a1, a2, False, rank)` re-normalises to the same pair -/
-theorem rollNorm_idem {n : Nat} {axis start a1 a2 : Int} (h : rollNorm n axis start = .ok (a1, a2)) :
-    rollNorm n a1 a2 = .ok (a1, a2) := by
-  obtain ⟨_, _, h1, h2, h3, h4⟩ := rollNorm_ok h
-  unfold rollNorm
-  simp only
-  rw [if_neg (by omega), if_neg (by omega), if_neg (by omega), if_neg (by omega)]
+/-- the constructor step shared by every leading-axis operation: new values over `s' ++ item`
+    that follow `π`, and a mask that is either the same scalar or an array over `s'` that follows `π` -/
+theorem likeSelf_reindex {q q' : Q0 α} {π : Index → Index} {s' : Shape} {nv : Arr α} {nm : Mask}
+    (hnv : nv.shape = s' ++ q.numer ++ q.denom)
+    (hvals : ∀ i k : Index, Valid s' i → Valid q.item k → nv.get (i ++ k) = q.vals.get (π i ++ k))
+    (hnm : (∃ b, q.mask = .all b ∧ nm = .all b) ∨
+      (∃ a a', q.mask = .arr a ∧ nm = .arr a' ∧ a'.shape = s' ∧ ∀ i, Valid s' i → a'.get i = a.get (π i)))
+    (h : likeSelf q nv nm = .ok q') : LeadReindex π s' q q' := by
+  obtain ⟨hc, hv, hs, hn, hd, hm⟩ := construct_ok h
+  rw [hnv] at hs
+  obtain ⟨e1, e2, e3⟩ := append3_inj hs hn hd
+  have hmask : q'.mask = nm := by
+    apply suitableMask_at hm
+    intro a ha
+    rcases hnm with ⟨b, _, hb⟩ | ⟨a0, a', _, ha', hsh, _⟩
+    · rw [hb] at ha; cases ha
+    · rw [ha'] at ha; injection ha with ha; subst ha; rw [hsh, e1]
+  refine ⟨hc, e1, e2, e3, ?_, ?_, ⟨?_, ?_⟩⟩
+  · intro i k hi hk; rw [hv]; exact hvals i k hi hk
+  · intro i hi
+    rw [hmask]
+    rcases hnm with ⟨b, hq, hb⟩ | ⟨a0, a', hq, ha', _, hget⟩
+    · rw [hq, hb]; rfl
+    · rw [hq, ha']; exact hget i hi
+  · rw [hv, hnv, e1, e2, e3]
+  · intro a ha
+    rw [hmask] at ha
+    rcases hnm with ⟨b, _, hb⟩ | ⟨a0, a', _, ha', hsh, _⟩
+    · rw [hb] at ha; cases ha
+    · rw [ha'] at ha; injection ha with ha; subst ha; rw [hsh, e1]
 
-example : rollNorm 2 (-1) (-2) = .ok (1, 0) ∧ rollNorm 2 1 0 = .ok (1, 0) ∧ rollNorm 2 1 1 = .ok (1, 1) := by decide
+/-! ## the derivative recursion -/
 
-/-- the effective rank is a fixed point too: the derivative (already padded to `rk` axes) computes `rk` again -/
-theorem effRank_idem {len rk : Nat} {rank : Option Nat} (h : effRank len rank = .ok rk) (hlen : len ≠ 0) :
-    effRank rk (some rk) = .ok rk ∧ len ≤ rk := by
-  unfold effRank at h
-  generalize hr : rankOr len rank = r at h
-  by_cases c : r < len
-  · rw [if_pos c] at h; cases h
-  rw [if_neg c, if_neg hlen] at h
-  injection h with h
-  subst h
-  refine ⟨?_, by omega⟩
-  unfold effRank
-  cases r with
-  | zero => omega
-  | succ r => simp [rankOr]
-
-/-- `move_axis` (repaired): every entry is read as NumPy's `normalize_axis_index` reads it -/
-theorem moveNorm_ok {n : Nat} {src dst s' d' : List Int} (h : moveNorm n src dst = .ok (s', d')) :
-    s' = src.map (· % (n : Int)) ∧ d' = dst.map (· % (n : Int)) ∧
-      ∀ x ∈ src ++ dst, NpShape.normAxis n x = .ok (x % (n : Int)).toNat ∧ 0 ≤ x % (n : Int) ∧ x % (n : Int) < n := by
-  unfold moveNorm at h
-  simp only at h
+theorem insertDeriv_same {b d d' : Q0 α} (hs : d.shape = b.shape) (h : insertDeriv b d = .ok d') : d' = d := by
+  unfold insertDeriv at h
   split at h; · cases h
-  rename_i hany
-  injection h with h; injection h with e1 e2
-  refine ⟨e1.symm, e2.symm, fun x hx => ?_⟩
-  have hx' : ¬ (x < -(n : Int) ∨ x ≥ n) := by
-    intro hc
-    apply hany
-    rw [List.any_eq_true]
-    exact ⟨x, hx, by simpa using hc⟩
-  have r := emod_of_range (n := n) (a := x) (by omega) (by omega)
-  unfold NpShape.normAxis
-  rw [if_pos ⟨by omega, by omega⟩, r]
-  refine ⟨rfl, ?_⟩
-  split <;> omega
+  split at h; · cases h
+  rw [if_neg (by simpa using hs)] at h
+  injection h with h; exact h.symm
 
-/-- norm_idem (move_axis) -/
-theorem moveNorm_idem {n : Nat} {src dst s' d' : List Int} (h : moveNorm n src dst = .ok (s', d')) :
-    moveNorm n s' d' = .ok (s', d') := by
-  obtain ⟨e1, e2, hall⟩ := moveNorm_ok h
-  have hfix : ∀ l : List Int, (∀ x ∈ l, 0 ≤ x % (n : Int) ∧ x % (n : Int) < n) →
-      (l.map (· % (n : Int))).map (· % (n : Int)) = l.map (· % (n : Int)) := by
-    intro l hl
-    rw [List.map_map]
-    apply List.map_congr_left
-    intro x hx
-    exact Int.emod_eq_of_lt (hl x hx).1 (hl x hx).2
-  unfold moveNorm
-  simp only
-  rw [if_neg]
-  · subst e1 e2
-    rw [hfix src (fun x hx => (hall x (List.mem_append_left _ hx)).2),
-      hfix dst (fun x hx => (hall x (List.mem_append_right _ hx)).2)]
-  · rw [List.any_eq_true]
-    rintro ⟨y, hy, hc⟩
-    subst e1 e2
-    rw [← List.map_append, List.mem_map] at hy
-    obtain ⟨x, hx, rfl⟩ := hy
-    have := (hall x hx).2
-    simp at hc
-    omega
+theorem bind_ok {ε β γ : Type} {x : Except ε β} {f : β → Except ε γ} {c : γ} :
+    (x >>= f) = .ok c ↔ ∃ a, x = .ok a ∧ f a = .ok c := by
+  cases x <;> simp [bind, Except.bind]
 
-example : moveNorm 3 [-1, 0] [0, -2] = .ok ([2, 0], [0, 1]) ∧ moveNorm 3 [2, 0] [0, 1] = .ok ([2, 0], [0, 1]) := by
-  decide
+theorem pure_ok {ε β : Type} {a c : β} : (pure a : Except ε β) = .ok c ↔ a = c := by
+  simp [pure, Except.pure]
 
-/-! ## 2. every operation is ONE index map on the leading part; the item part of an index is untouched -/
+/-- induction over the derivative list: if the `recursive=False` call `f` relates every derivative to its
+    image by `P` and produces the leading shape of the new base, so does the whole dictionary, key by key -/
+theorem mapDerivs_forall₂ {b : Q0 α} {f : Q0 α → Except Err (Q0 α)} (P : Q0 α → Q0 α → Prop) :
+    ∀ (ds r : List (String × Q0 α)),
+      (∀ kd ∈ ds, ∀ d1, f kd.2 = .ok d1 → P kd.2 d1 ∧ d1.shape = b.shape) →
+      mapDerivs b ds f = .ok r →
+      List.Forall₂ (fun kd kd' => kd.1 = kd'.1 ∧ P kd.2 kd'.2) ds r
+  | [], r, _, h => by
+    unfold mapDerivs at h
+    rw [List.mapM_nil] at h
+    rw [← pure_ok.1 h]; exact List.Forall₂.nil
+  | kd :: ds, r, hf, h => by
+    unfold mapDerivs at h
+    rw [List.mapM_cons] at h
+    obtain ⟨x, hx, h⟩ := bind_ok.1 h
+    obtain ⟨rs, hrs, h⟩ := bind_ok.1 h
+    obtain ⟨d1, h1, hx⟩ := bind_ok.1 hx
+    obtain ⟨d2, h2, hx⟩ := bind_ok.1 hx
+    have hx := pure_ok.1 hx
+    have h := pure_ok.1 h
+    subst hx h
+    obtain ⟨hP, hs⟩ := hf kd (by simp) d1 h1
+    have e : d2 = d1 := insertDeriv_same hs h2
+    subst e
+    exact List.Forall₂.cons ⟨rfl, hP⟩
+      (mapDerivs_forall₂ P ds rs (fun kd' hkd' => hf kd' (by simp [hkd'])) hrs)
 
-/-- `y` is `x` with its axes permuted by `p` -/
-def IsTranspose {α} (x y : Arr α) (p : List Nat) : Prop :=
-  y.shape = permute p x.shape ∧ ∀ idx, y.get idx = x.get (unpermute p idx)
 
-/-- transposing a values array over `shape ++ item` by an order that permutes leading axes only:
-    the leading shape is permuted, the item shape stays, element `(i, k)` comes from `(π i, k)` -/
-theorem transpose_lead {α} (vals : Arr α) (shape item : Shape) (p : List Nat)
-    (hp : IsPerm shape.length p) (hv : vals.shape = shape ++ item) :
-    (transpose vals (p ++ tailAxes shape.length item.length)).shape = permute p shape ++ item ∧
-    ∀ i k : Index, i.length = shape.length → k.length = item.length →
-      (transpose vals (p ++ tailAxes shape.length item.length)).get (i ++ k) = vals.get (unpermute p i ++ k) := by
-  refine ⟨?_, fun i k hi hk => ?_⟩
-  · show permute _ vals.shape = _
-    rw [hv, permute_lead_shape shape item hp rfl]
-  · show vals.get (unpermute _ (i ++ k)) = _
-    rw [← hk, unpermute_lead_index i k hp hi]
+theorem map_ok {ε β γ : Type} {x : Except ε β} {f : β → γ} {c : γ} :
+    (x.map f) = .ok c ↔ ∃ a, x = .ok a ∧ f a = c := by
+  cases x <;> simp [Except.map]
 
-theorem swapaxes_ok {α} (x : Arr α) {a1 a2 : Int} {a b : Nat}
-    (h1 : NpShape.normAxis x.shape.length a1 = .ok a) (h2 : NpShape.normAxis x.shape.length a2 = .ok b) :
-    NpShape.swapaxes x a1 a2 = .ok (transpose x (swapPerm x.shape.length a b)) := by
-  unfold NpShape.swapaxes
-  simp only [h1, h2]
-  rfl
+/-! ## axis-permuting operations (swap_axes, roll_axis, move_axis): the common core -/
 
-/-- op_is_reindex + pi_eq_numpy for `swap_axes`: with the axes as normalised by the code, the NumPy
-    call on the mask (leading shape) and the NumPy call on the values (`shape ++ item`) realise ONE
-    axis permutation `p`; that permutation is the one `numpy.swapaxes` derives from the ORIGINAL
-    arguments on an array of the leading shape; the item index `k` is never touched. -/
-theorem swap_axes_is_reindex {α} (vals : Arr α) (m : Arr Bool) (shape item : Shape)
-    (ax1 ax2 b1 b2 : Int) (hv : vals.shape = shape ++ item) (hm : m.shape = shape)
-    (hn : swapNorm shape.length ax1 ax2 = .ok (b1, b2)) :
-    ∃ p, IsPerm shape.length p ∧
-      NpShape.swapaxes m ax1 ax2 = .ok (transpose m p) ∧
-      NpShape.swapaxes m b1 b2 = .ok (transpose m p) ∧
-      ∃ v', NpShape.swapaxes vals b1 b2 = .ok v' ∧ v'.shape = permute p shape ++ item ∧
-        ∀ i k : Index, i.length = shape.length → k.length = item.length →
-          v'.get (i ++ k) = vals.get (unpermute p i ++ k) := by
-  obtain ⟨n1, n2, h1, h2, h3, h4⟩ := swapNorm_ok hn
+/-- what a NumPy axis operation `np` does when it is called with LEADING axes on an array over
+    `shape ++ item`, for any item shape (values: `numer ++ denom`, mask: `[]`): it transposes by ONE
+    order `p` of the leading axes and leaves the item part of every index alone -/
+def ActsAs (np : {β : Type} → Arr β → Except Err (Arr β)) (shape : Shape) (p : List Nat) : Prop :=
+  ∀ {β : Type} (x : Arr β) (item : Shape), x.shape = shape ++ item →
+    ∃ x', np x = .ok x' ∧ x'.shape = permute p shape ++ item ∧
+      ∀ i k : Index, i.length = shape.length → k.length = item.length →
+        x'.get (i ++ k) = x.get (unpermute p i ++ k)
+
+/-- the body shared by `swap_axes`, `roll_axis`, `move_axis` after normalisation: NumPy call on the values,
+    NumPy call on an array mask (a scalar mask is kept), new object of the same class -/
+def maskThrough (np : {β : Type} → Arr β → Except Err (Arr β)) : Mask → Except Err Mask
+  | .all b => pure (Mask.all b)
+  | .arr a => (np a).map Mask.arr
+
+def permCore (np : {β : Type} → Arr β → Except Err (Arr β)) (q : Q0 α) : Except Err (Q0 α) :=
+  np q.vals >>= fun nv => maskThrough np q.mask >>= fun nm => likeSelf q nv nm
+
+theorem swapCore_eq (q : Q0 α) (a1 a2 : Int) :
+    swapCore q a1 a2 = permCore (fun x => NpShape.swapaxes x a1 a2) q := by
+  unfold swapCore permCore maskThrough; cases q.mask <;> rfl
+theorem rollCore_eq (q : Q0 α) (a1 a2 : Int) :
+    rollCore q a1 a2 = permCore (fun x => NpShape.rollaxis x a1 a2) q := by
+  unfold rollCore permCore maskThrough; cases q.mask <;> rfl
+theorem moveCore_eq (q : Q0 α) (src dst : List Int) :
+    moveCore q src dst = permCore (fun x => NpShape.moveaxis x src dst) q := by
+  unfold moveCore permCore maskThrough; cases q.mask <;> rfl
+
+/-- op_is_reindex for the common core: values and mask follow the SAME `π = unpermute p` -/
+theorem permCore_reindex {np : {β : Type} → Arr β → Except Err (Arr β)} {q q' : Q0 α} {p : List Nat}
+    (hwf : WF0 q) (hpl : p.length = q.shape.length) (hnp : ActsAs np q.shape p) (h : permCore np q = .ok q') :
+    LeadReindex (unpermute p) (permute p q.shape) q q' := by
+  unfold permCore at h
+  obtain ⟨nv, hnv, h⟩ := bind_ok.1 h
+  obtain ⟨nm, hnm, h⟩ := bind_ok.1 h
+  obtain ⟨nv', e1, hsh, hget⟩ := hnp q.vals (q.numer ++ q.denom) (by rw [hwf.vshape, List.append_assoc])
+  rw [hnv] at e1; injection e1 with e1; subst e1
+  refine likeSelf_reindex (by rw [hsh, List.append_assoc]) ?_ ?_ h
+  · intro i k hi hk
+    exact hget i k (by rw [NpShape.valid_length hi, length_permute, hpl]) (NpShape.valid_length hk)
+  · cases hm : q.mask with
+    | all b =>
+      rw [hm] at hnm
+      exact Or.inl ⟨b, rfl, (pure_ok.1 hnm).symm⟩
+    | arr a =>
+      rw [hm] at hnm
+      unfold maskThrough at hnm
+      obtain ⟨a', ha', e⟩ := map_ok.1 hnm
+      obtain ⟨a'', e2, hsh2, hget2⟩ := hnp a [] (by rw [hwf.mshape a hm, List.append_nil])
+      rw [ha'] at e2; injection e2 with e2; subst e2
+      refine Or.inr ⟨a, a', rfl, e.symm, by simpa using hsh2, fun i hi => ?_⟩
+      have := hget2 i [] (by rw [NpShape.valid_length hi, length_permute, hpl]) rfl
+      simpa using this
+
+
+/-! ## swap_axes -/
+
+theorem swapPerm_self {n a : Nat} : swapPerm n a a = List.range n := by
+  rw [swapPerm_eq]
+  apply List.map_id''
+  intro k; unfold swapFn; split <;> (try split) <;> omega
+
+theorem swap_acts (shape : Shape) {b1 b2 : Int} (h1 : 0 ≤ b1) (h2 : b1 < shape.length) (h3 : 0 ≤ b2)
+    (h4 : b2 < shape.length) :
+    ActsAs (fun x => NpShape.swapaxes x b1 b2) shape (swapPerm shape.length b1.toNat b2.toNat) := by
+  intro β x item hx
   have ha : b1.toNat < shape.length := by omega
   have hb : b2.toNat < shape.length := by omega
-  refine ⟨swapPerm shape.length b1.toNat b2.toNat, swapPerm_isPerm ha hb, ?_, ?_, ?_⟩
-  · have := swapaxes_ok m (a1 := ax1) (a2 := ax2) (hm ▸ n1) (hm ▸ n2)
-    rwa [hm] at this
-  · have := swapaxes_ok m (a1 := b1) (a2 := b2) (hm ▸ normAxis_of_nonneg h1 h2) (hm ▸ normAxis_of_nonneg h3 h4)
-    rwa [hm] at this
-  · have hlen : vals.shape.length = shape.length + item.length := by rw [hv, List.length_append]
-    have e1 : NpShape.normAxis vals.shape.length b1 = .ok b1.toNat :=
-      normAxis_of_nonneg h1 (by rw [hlen]; push_cast; omega)
-    have e2 : NpShape.normAxis vals.shape.length b2 = .ok b2.toNat :=
-      normAxis_of_nonneg h3 (by rw [hlen]; push_cast; omega)
-    refine ⟨_, swapaxes_ok vals e1 e2, ?_⟩
-    rw [hlen, swapPerm_lead item.length ha hb]
-    exact transpose_lead vals shape item _ (swapPerm_isPerm ha hb) hv
+  have hlen : x.shape.length = shape.length + item.length := by rw [hx, List.length_append]
+  have e1 : NpShape.normAxis x.shape.length b1 = .ok b1.toNat :=
+    normAxis_of_nonneg h1 (by rw [hlen]; push_cast; omega)
+  have e2 : NpShape.normAxis x.shape.length b2 = .ok b2.toNat :=
+    normAxis_of_nonneg h3 (by rw [hlen]; push_cast; omega)
+  refine ⟨_, swapaxes_ok x e1 e2, ?_⟩
+  rw [hlen, swapPerm_lead item.length ha hb]
+  exact transpose_lead x shape item _ (swapPerm_isPerm ha hb) hx
 
-example : swapNorm 2 (-1) 0 = .ok (1, 0) ∧ swapPerm 2 1 0 = [1, 0] := by decide
+/-- the leading-axis order of `swap_axes` for normalised axes `(b1, b2)` -/
+def swapOrder (n : Nat) (b1 b2 : Int) : List Nat := swapPerm n b1.toNat b2.toNat
 
-/-- illegal axis arguments of `swap_axes` are rejected, as by NumPy -/
-theorem swap_axes_rejects {α} (m : Arr α) (ax1 ax2 : Int) (e : Err)
-    (h : swapNorm m.shape.length ax1 ax2 = .error e) : NpShape.swapaxes m ax1 ax2 = .error .axis := by
-  obtain ⟨_, h | h⟩ := swapNorm_error h
-  · unfold NpShape.swapaxes; simp only [h]; rfl
-  · unfold NpShape.swapaxes
-    cases h1 : NpShape.normAxis m.shape.length ax1 with
-    | error e1 =>
-      have : e1 = .axis := by
-        unfold NpShape.normAxis at h1; split at h1 <;> [cases h1; (injection h1 with h1; exact h1.symm)]
-      subst this; simp only [h1]; rfl
-    | ok a => simp only [h1, h]; rfl
-
-theorem rollPerm_self {n a : Nat} (ha : a < n) : rollPerm n a a = List.range n := by
-  rw [rollPerm_eq ha ha]
-  apply List.map_id''
-  intro k
-  unfold rollFn
-  split <;> (try split) <;> (try split) <;> omega
-
-theorem isPerm_range (n : Nat) : IsPerm n (List.range n) :=
-  ⟨by simp, List.nodup_range, fun _ hm => List.mem_range.1 hm⟩
-
-theorem unpermute_range {n : Nat} (idx : Index) (h : idx.length = n) : unpermute (List.range n) idx = idx := by
-  subst h
-  have := unpermute_permute (isPerm_range idx.length) rfl
-  rwa [permute_range] at this
-
-/-- what `numpy.rollaxis` returns once its arguments are known to be legal -/
-theorem rollaxis_ok {α} (x : Arr α) {axis start : Int} {a : Nat} {s : Int}
-    (h1 : NpShape.normAxis x.shape.length axis = .ok a)
-    (hs : (if start < 0 then start + (x.shape.length : Int) else start) = s) (h0 : 0 ≤ s)
-    (hn : s < (x.shape.length : Int) + 1) :
-    NpShape.rollaxis x axis start =
-      .ok (if a = (if a < s.toNat then s.toNat - 1 else s.toNat) then x
-           else transpose x (rollPerm x.shape.length a (if a < s.toNat then s.toNat - 1 else s.toNat))) := by
-  unfold NpShape.rollaxis
-  simp only [h1, hs, bind, Except.bind]
-  rw [if_neg (by omega)]
-  split <;> split <;> rfl
-
-/-- op_is_reindex + pi_eq_numpy for `roll_axis` (repaired code): the NumPy calls the code makes on the
-    mask (leading shape) and on the values (`shape ++ item`) with the normalised pair realise ONE axis
-    permutation `p`, the one `numpy.rollaxis` derives from the ORIGINAL arguments on an array of the
-    leading shape; the item index is never touched. -/
-theorem roll_axis_is_reindex {α} (vals : Arr α) (m : Arr Bool) (shape item : Shape)
-    (axis start a1 a2 : Int) (hv : vals.shape = shape ++ item) (hm : m.shape = shape)
-    (hn : rollNorm shape.length axis start = .ok (a1, a2)) :
-    ∃ p, IsPerm shape.length p ∧ ∃ m' v',
-      NpShape.rollaxis m axis start = .ok m' ∧
-      NpShape.rollaxis m a1 a2 = .ok m' ∧
-      NpShape.rollaxis vals a1 a2 = .ok v' ∧
-      m'.shape = permute p shape ∧ v'.shape = permute p shape ++ item ∧
-      (∀ i : Index, i.length = shape.length → m'.get i = m.get (unpermute p i)) ∧
-      (∀ i k : Index, i.length = shape.length → k.length = item.length →
-        v'.get (i ++ k) = vals.get (unpermute p i ++ k)) := by
-  obtain ⟨n1, e2, h1, h2, h3, h4⟩ := rollNorm_ok hn
-  have hL : vals.shape.length = shape.length + item.length := by rw [hv, List.length_append]
-  have ha : a1.toNat < shape.length := by omega
-  generalize hs' : (if a1.toNat < a2.toNat then a2.toNat - 1 else a2.toNat) = s'
-  have hs'lt : s' < shape.length := by subst hs'; split <;> omega
-  -- the three NumPy calls
-  have r1 := rollaxis_ok m (axis := axis) (start := start) (a := a1.toNat) (s := a2)
-    (hm ▸ n1) (by rw [hm]; exact e2.symm) h3 (by rw [hm]; omega)
-  have r2 := rollaxis_ok m (axis := a1) (start := a2) (a := a1.toNat) (s := a2)
-    (hm ▸ normAxis_of_nonneg h1 h2) (by rw [if_neg (by omega)]) h3 (by rw [hm]; omega)
-  have r3 := rollaxis_ok vals (axis := a1) (start := a2) (a := a1.toNat) (s := a2)
-    (normAxis_of_nonneg h1 (by rw [hL]; push_cast; omega)) (by rw [if_neg (by omega)]) h3
-    (by rw [hL]; push_cast; omega)
-  rw [hs'] at r1 r2 r3
-  by_cases hc : a1.toNat = s'
-  · rw [if_pos hc] at r1 r2 r3
-    refine ⟨List.range shape.length, isPerm_range _, m, vals, r1, r2, r3, ?_, ?_, ?_, ?_⟩
-    · rw [hm, permute_range]
-    · rw [hv, permute_range]
-    · intro i hi; rw [unpermute_range i hi]
-    · intro i k hi _; rw [unpermute_range i hi]
-  · rw [if_neg hc] at r1 r2 r3
-    rw [hm] at r1 r2
-    rw [hL, rollPerm_lead item.length ha hs'lt] at r3
-    have hp := rollPerm_isPerm ha hs'lt
-    obtain ⟨t1, t2⟩ := transpose_lead vals shape item _ hp hv
-    refine ⟨rollPerm shape.length a1.toNat s', hp, _, _, r1, r2, r3, ?_, t1, ?_, t2⟩
-    · show permute _ m.shape = _; rw [hm]
-    · intro i _; rfl
-
-example : rollNorm 3 (-1) 0 = .ok (2, 0) ∧ rollPerm 3 2 0 = [2, 0, 1] := by decide
-
-/-- op_is_reindex for `reshape`: the NumPy reshape of the values (`new ++ item`) and of the mask
-    (`new`) move element `(i, k)` from `(π i, k)` with ONE map `π = unravel old ∘ ravel new`;
-    the item index is untouched. -/
-theorem reshape_is_reindex {α} (vals : Arr α) (m : Arr Bool) (old item new : Shape)
-    (hv : vals.shape = old ++ item) (hm : m.shape = old) (hsz : size new = size old) :
-    ∀ i k : Index, Valid new i → Valid item k →
-      (reshapeTo vals (new ++ item)).get (i ++ k) = vals.get (unravel old (ravel new i) ++ k) ∧
-      (reshapeTo m new).get i = m.get (unravel old (ravel new i)) := by
-  intro i k hi hk
-  constructor
-  · show vals.get (unravel vals.shape (ravel (new ++ item) (i ++ k))) = _
-    rw [hv, reshape_lead_item old new item i k hsz hi hk]
-  · show m.get (unravel m.shape (ravel new i)) = _
-    rw [hm]
-
-theorem reshape_eq {α} (a : Arr α) (new : List Int) (s : Shape) (h : resolve (size a.shape) new = .ok s) :
-    NpShape.reshape a new = .ok (reshapeTo a s) := by
-  unfold NpShape.reshape; simp only [h]; rfl
-
-theorem prodInt_nonneg : ∀ l : List Int, (∀ x ∈ l, 0 ≤ x) → 0 ≤ prodInt l
-  | [], _ => by simp [prodInt]
-  | x :: xs, h => by
-    have h1 := h x (by simp)
-    have h2 := prodInt_nonneg xs (fun y hy => h y (by simp [hy]))
-    show 0 ≤ x * prodInt xs
-    exact Int.mul_nonneg h1 h2
-
-theorem size_subst (u : Nat) : ∀ new : List Int,
-    size (new.map fun d => if d < 0 then u else d.toNat)
-      = (prodInt (new.filter (fun d => decide (¬ d < 0)))).toNat * u ^ (new.filter (fun d => decide (d < 0))).length
-  | [] => by simp [size_nil, prodInt]
-  | d :: ds => by
-    have ih := size_subst u ds
-    by_cases hd : d < 0
-    · simp only [List.map_cons, size_cons, hd, if_true, List.filter_cons, decide_true, decide_false, not_true_eq_false,
-        List.length_cons, ih, Nat.pow_succ]
-      simp [Nat.mul_comm, Nat.mul_left_comm]
-    · have hnn : ∀ x ∈ ds.filter (fun d => decide (¬ d < 0)), 0 ≤ x := by
-        intro x hx
-        have := (List.mem_filter.1 hx).2
-        simp at this; exact this
-      have hp := prodInt_nonneg _ hnn
-      simp only [List.map_cons, size_cons, hd, if_false, List.filter_cons, decide_true, decide_false, not_false_eq_true,
-        ih]
-      show d.toNat * _ = (d * prodInt _).toNat * _
-      rw [Int.toNat_mul (by omega) hp, Nat.mul_assoc]
-      simp
-
-/-- a successful resolution of the target shape (with or without an unknown dimension) has exactly the
-    size of the array: reshape never drops or invents elements -/
-theorem resolve_size {total : Nat} {new : List Int} {s : Shape} (h : resolve total new = .ok s) : size s = total := by
-  unfold resolve at h
+/-- op_is_reindex, one object (`recursive=False`): whatever pair of arguments normalises to `(b1, b2)` —
+    the original axes or the already normalised ones — the result is `q` re-indexed by the one map
+    `unpermute (swapOrder n b1 b2)` on the leading part. -/
+theorem swapAxes0_reindex {q q' : Q0 α} {x1 x2 b1 b2 : Int} (hwf : WF0 q)
+    (hn : swapNorm q.shape.length x1 x2 = .ok (b1, b2)) (h : swapAxes0 q x1 x2 = .ok q') :
+    LeadReindex (unpermute (swapOrder q.shape.length b1 b2)) (permute (swapOrder q.shape.length b1 b2) q.shape) q q' := by
+  obtain ⟨_, _, h1, h2, h3, h4⟩ := swapNorm_ok hn
+  unfold swapAxes0 at h
+  obtain ⟨⟨a1, a2⟩, hn', h⟩ := bind_ok.1 h
+  rw [hn] at hn'; injection hn' with hn'; injection hn' with e1 e2; subst e1 e2
   simp only at h
   split at h
-  · rename_i h0
-    split at h
-    · rename_i hk
-      injection h with h
-      subst h
-      have e := size_subst 0 new
-      have hmap : (new.map fun d => if d < 0 then 0 else d.toNat) = new.map Int.toNat := by
-        apply List.map_congr_left
-        intro d _
-        split
-        · rename_i hd; simp [Int.toNat_of_nonpos (Int.le_of_lt hd)]
-        · rfl
-      rw [hmap] at e
-      rw [e, h0, Nat.pow_zero, Nat.mul_one]
-      exact hk
-    · cases h
-  · rename_i h1
-    split at h
-    · cases h
-    · rename_i hk
-      injection h with h
-      subst h
-      rw [size_subst, h1, Nat.pow_one]
-      have : total % (prodInt (List.filter (fun x => decide ¬x < 0) new)).toNat = 0 := by omega
-      exact Nat.mul_div_cancel' (Nat.dvd_of_mod_eq_zero this)
+  · rename_i heq
+    have := pure_ok.1 h; subst this
+    unfold swapOrder
+    rw [heq, swapPerm_self, permute_range]
+    exact LeadReindex.refl hwf _ (fun i hi => unpermute_range i (NpShape.valid_length hi))
+  · rw [swapCore_eq] at h
+    exact permCore_reindex hwf (swapPerm_isPerm (by omega) (by omega)).1 (swap_acts q.shape h1 h2 h3 h4) h
+
+/-- **op_is_reindex for `swap_axes`, whole object**: values, mask and EVERY derivative of the result are the
+    input's, re-indexed by ONE axis permutation of the leading part; items untouched.  The recursive calls
+    receive the normalised axes; `swapNorm_idem` is what makes them use the same permutation. -/
+theorem swapAxes_reindex {q r : Q α} {ax1 ax2 b1 b2 : Int} (hwf : WF q)
+    (hn : swapNorm q.base.shape.length ax1 ax2 = .ok (b1, b2)) (h : swapAxes q ax1 ax2 true = .ok r) :
+    ObjReindex (unpermute (swapOrder q.base.shape.length b1 b2))
+      (permute (swapOrder q.base.shape.length b1 b2) q.base.shape) q r := by
+  obtain ⟨_, _, h1, h2, h3, h4⟩ := swapNorm_ok hn
+  unfold swapAxes at h
+  obtain ⟨⟨a1, a2⟩, hn', h⟩ := bind_ok.1 h
+  rw [hn] at hn'; injection hn' with hn'; injection hn' with e1 e2; subst e1 e2
+  simp only at h
+  split at h
+  · rename_i heq
+    have := pure_ok.1 h; subst this
+    unfold swapOrder
+    rw [heq, swapPerm_self, permute_range]
+    have hid : ∀ i, Valid q.base.shape i → unpermute (List.range q.base.shape.length) i = i :=
+      fun i hi => unpermute_range i (NpShape.valid_length hi)
+    refine ⟨LeadReindex.refl hwf.base _ hid, ?_⟩
+    have : ∀ ds : List (String × Q0 α), (∀ kd ∈ ds, WF0 kd.2 ∧ kd.2.shape = q.base.shape ∧ kd.2.numer = q.base.numer) →
+        List.Forall₂ (fun kd kd' => kd.1 = kd'.1 ∧
+          LeadReindex (unpermute (List.range q.base.shape.length)) q.base.shape kd.2 kd'.2) ds ds := by
+      intro ds
+      induction ds with
+      | nil => intro _; exact List.Forall₂.nil
+      | cons kd ds ih =>
+        intro hds
+        obtain ⟨w, hs, _⟩ := hds kd (by simp)
+        refine List.Forall₂.cons ⟨rfl, ?_⟩ (ih fun kd' h' => hds kd' (by simp [h']))
+        have := LeadReindex.refl w (unpermute (List.range q.base.shape.length)) (fun i hi => hid i (hs ▸ hi))
+        rwa [hs] at this
+    exact this q.derivs hwf.derivs
+  · obtain ⟨b, hb, h⟩ := bind_ok.1 h
+    obtain ⟨ds, hds, h⟩ := bind_ok.1 h
+    have := pure_ok.1 h; subst this
+    rw [swapCore_eq] at hb
+    have hbase := permCore_reindex hwf.base (swapPerm_isPerm (by omega) (by omega)).1
+      (swap_acts q.base.shape h1 h2 h3 h4) hb
+    refine ⟨hbase, ?_⟩
+    apply mapDerivs_forall₂ _ q.derivs ds _ hds
+    intro kd hkd d1 hd1
+    obtain ⟨w, hs, _⟩ := hwf.derivs kd hkd
+    have hidem : swapNorm kd.2.shape.length b1 b2 = .ok (b1, b2) := by rw [hs]; exact swapNorm_idem hn
+    have := swapAxes0_reindex w hidem hd1
+    rw [hs] at this
+    exact ⟨this, this.shape.trans hbase.shape.symm⟩
+
+
+/-! ## reshape / flatten -/
+
+/-- identical derivative dictionaries are related by any map that is the identity on valid indices -/
+theorem derivs_refl {s : Shape} {numer : Shape} (π : Index → Index) (hπ : ∀ i, Valid s i → π i = i) :
+    ∀ ds : List (String × Q0 α), (∀ kd ∈ ds, WF0 kd.2 ∧ kd.2.shape = s ∧ kd.2.numer = numer) →
+      List.Forall₂ (fun kd kd' => kd.1 = kd'.1 ∧ LeadReindex π s kd.2 kd'.2) ds ds
+  | [], _ => List.Forall₂.nil
+  | kd :: ds, hds => by
+    obtain ⟨w, hs, _⟩ := hds kd (by simp)
+    refine List.Forall₂.cons ⟨rfl, ?_⟩ (derivs_refl π hπ ds fun kd' h' => hds kd' (by simp [h']))
+    have := LeadReindex.refl w π (fun i hi => hπ i (hs ▸ hi))
+    rwa [hs] at this
+
+theorem reshape0_eq (q : Q0 α) (shape : List Int) :
+    reshape0 q shape = if shape = ofNats q.shape then .ok q
+      else NpShape.reshape q.vals (shape ++ ofNats q.item) >>= fun nv =>
+        maskThrough (fun x => NpShape.reshape x shape) q.mask >>= fun nm => likeSelf q nv nm := by
+  unfold reshape0 maskThrough; cases q.mask <;> rfl
+
+/-- the leading map of a reshape from `old` to `new` -/
+def reshapeIdx (old new : Shape) : Index → Index := fun i => unravel old (ravel new i)
+
+/-- op_is_reindex for `reshape`, one object: with `new` the shape NumPy resolves the target to on the LEADING
+    size (the `-1` arithmetic does not see the item, `resolve_append_item`), the result is `q` re-indexed by
+    `unravel old ∘ ravel new` on the leading part -/
+theorem reshape0_reindex {q q' : Q0 α} {shape : List Int} {new : Shape} (hwf : WF0 q) (hitem : 0 < size q.item)
+    (hres : resolve (size q.shape) shape = .ok new) (h : reshape0 q shape = .ok q') :
+    LeadReindex (reshapeIdx q.shape new) new q q' := by
+  rw [reshape0_eq] at h
+  split at h
+  · rename_i heq
+    injection h with h; subst h
+    rw [heq, resolve_ofNats] at hres
+    injection hres with hres; subst hres
+    exact LeadReindex.refl hwf _ (fun i hi => unravel_ravel hi)
+  · obtain ⟨nv, hnv, h⟩ := bind_ok.1 h
+    obtain ⟨nm, hnm, h⟩ := bind_ok.1 h
+    have hsz := resolve_size hres
+    have hvs : q.vals.shape = q.shape ++ q.item := by rw [hwf.vshape, List.append_assoc]; rfl
+    have hres' : resolve (size q.vals.shape) (shape ++ ofNats q.item) = .ok (new ++ q.item) := by
+      rw [hvs, size_append, resolve_append_item _ _ _ hitem, hres]; rfl
+    rw [reshape_eq q.vals _ _ hres'] at hnv
+    injection hnv with hnv; subst hnv
+    refine likeSelf_reindex (show (reshapeTo q.vals (new ++ q.item)).shape = new ++ q.numer ++ q.denom by
+      show new ++ q.item = _; unfold Q0.item; rw [List.append_assoc]) ?_ ?_ h
+    · intro i k hi hk
+      exact (reshape_is_reindex q.vals ⟨q.shape, fun _ => false⟩ q.shape q.item new hvs rfl hsz i k hi hk).1
+    · cases hm : q.mask with
+      | all b =>
+        rw [hm] at hnm
+        exact Or.inl ⟨b, rfl, (pure_ok.1 hnm).symm⟩
+      | arr a =>
+        rw [hm] at hnm
+        unfold maskThrough at hnm
+        obtain ⟨a', ha', e⟩ := map_ok.1 hnm
+        have hash := hwf.mshape a hm
+        simp only at ha'
+        rw [reshape_eq a shape new (by rw [hash]; exact hres)] at ha'
+        injection ha' with ha'; subst ha'
+        refine Or.inr ⟨a, _, rfl, e.symm, rfl, fun i _ => ?_⟩
+        show a.get (unravel a.shape (ravel new i)) = _
+        rw [hash]; rfl
+
+/-- **op_is_reindex for `reshape`, whole object**: values, mask and every derivative (each with its own
+    denominator, hence its own item size) are re-indexed by the ONE map `unravel old ∘ ravel new` -/
+theorem reshape_reindex {q r : Q α} {shape : List Int} {new : Shape} (hwf : WF q)
+    (hitem : 0 < size q.base.item) (hditem : ∀ kd ∈ q.derivs, 0 < size kd.2.item)
+    (hres : resolve (size q.base.shape) shape = .ok new) (h : Shaper.reshape q shape true = .ok r) :
+    ObjReindex (reshapeIdx q.base.shape new) new q r := by
+  unfold Shaper.reshape at h
+  split at h
+  · rename_i heq
+    injection h with h; subst h
+    rw [heq, resolve_ofNats] at hres
+    injection hres with hres; subst hres
+    have hid : ∀ i, Valid q.base.shape i → reshapeIdx q.base.shape q.base.shape i = i := fun i hi => unravel_ravel hi
+    exact ⟨LeadReindex.refl hwf.base _ hid, derivs_refl _ hid q.derivs hwf.derivs⟩
+  · obtain ⟨b, hb, h⟩ := bind_ok.1 h
+    obtain ⟨ds, hds, h⟩ := bind_ok.1 h
+    have := pure_ok.1 h; subst this
+    have hbase := reshape0_reindex hwf.base hitem hres hb
+    refine ⟨hbase, ?_⟩
+    apply mapDerivs_forall₂ _ q.derivs ds _ hds
+    intro kd hkd d1 hd1
+    obtain ⟨w, hs, _⟩ := hwf.derivs kd hkd
+    have := reshape0_reindex w (hditem kd hkd) (by rw [hs]; exact hres) hd1
+    rw [hs] at this
+    exact ⟨this, this.shape.trans hbase.shape.symm⟩
+
+/-- `flatten` is `reshape((size,))` (objects of rank < 2 are returned as they are) -/
+theorem flatten_reindex {q r : Q α} (hwf : WF q) (hitem : 0 < size q.base.item)
+    (hditem : ∀ kd ∈ q.derivs, 0 < size kd.2.item) (hrank : 2 ≤ q.base.shape.length)
+    (h : flatten q true = .ok r) :
+    ObjReindex (reshapeIdx q.base.shape [size q.base.shape]) [size q.base.shape] q r := by
+  unfold flatten at h
+  rw [if_neg (by omega)] at h
+  refine reshape_reindex hwf hitem hditem ?_ h
+  have := resolve_ofNats [size q.base.shape]
+  simpa [size_cons, size_nil, ofNats] using this
+
+
+/-! ## roll_axis / move_axis: optional padding with length-1 axes (the `rank=` extension), then an axis permutation -/
+
+theorem LeadReindex.congr {π π' : Index → Index} {s' : Shape} {q q' : Q0 α} (h : LeadReindex π s' q q')
+    (hπ : ∀ i, Valid s' i → π' i = π i) : LeadReindex π' s' q q' :=
+  ⟨h.cls, h.shape, h.numer, h.denom, fun i k hi hk => by rw [hπ i hi]; exact h.vals i k hi hk,
+    fun i hi => by rw [hπ i hi]; exact h.mask i hi, h.wf⟩
+
+theorem ObjReindex.wf {π : Index → Index} {s' : Shape} {q r : Q α} (h : ObjReindex π s' q r) (hwf : WF q) : WF r := by
+  refine ⟨h.1.wf, ?_⟩
+  have : ∀ (ds rs : List (String × Q0 α)),
+      List.Forall₂ (fun kd kd' => kd.1 = kd'.1 ∧ LeadReindex π s' kd.2 kd'.2) ds rs →
+      (∀ kd ∈ ds, kd.2.numer = q.base.numer) →
+      ∀ kd' ∈ rs, WF0 kd'.2 ∧ kd'.2.shape = r.base.shape ∧ kd'.2.numer = r.base.numer := by
+    intro ds rs hf
+    induction hf with
+    | nil => intro _ kd' hkd'; cases hkd'
+    | cons hhead _ ih =>
+      intro hn kd' hkd'
+      rcases List.mem_cons.1 hkd' with e | e
+      · subst e
+        exact ⟨hhead.2.wf, hhead.2.shape.trans h.1.shape.symm,
+          (hhead.2.numer.trans (hn _ (by simp))).trans h.1.numer.symm⟩
+      · exact ih (fun kd hkd => hn kd (by simp [hkd])) kd' e
+  exact this q.derivs r.derivs h.2 (fun kd hkd => (hwf.derivs kd hkd).2.2)
+
+theorem ObjReindex.trans {π₁ π₂ : Index → Index} {s₁ s₂ : Shape} {q q₁ q₂ : Q α}
+    (h₁ : ObjReindex π₁ s₁ q q₁) (h₂ : ObjReindex π₂ s₂ q₁ q₂) (hmap : ∀ i, Valid s₂ i → Valid s₁ (π₂ i)) :
+    ObjReindex (fun i => π₁ (π₂ i)) s₂ q q₂ := by
+  refine ⟨h₁.1.trans h₂.1 hmap, ?_⟩
+  have : ∀ (a b c : List (String × Q0 α)),
+      List.Forall₂ (fun kd kd' => kd.1 = kd'.1 ∧ LeadReindex π₁ s₁ kd.2 kd'.2) a b →
+      List.Forall₂ (fun kd kd' => kd.1 = kd'.1 ∧ LeadReindex π₂ s₂ kd.2 kd'.2) b c →
+      List.Forall₂ (fun kd kd' => kd.1 = kd'.1 ∧ LeadReindex (fun i => π₁ (π₂ i)) s₂ kd.2 kd'.2) a c := by
+    intro a b c hab
+    induction hab generalizing c with
+    | nil => intro hbc; cases hbc; exact List.Forall₂.nil
+    | cons hh _ ih =>
+      intro hbc
+      cases hbc with
+      | cons hh2 ht2 => exact List.Forall₂.cons ⟨hh.1.trans hh2.1, hh.2.trans hh2.2 hmap⟩ (ih _ ht2)
+  exact this _ _ _ h₁.2 h₂.2
+
+/-- the leading shape after "Add missing axes if necessary" -/
+def padded (rk : Nat) (shape : Shape) : Shape := List.replicate (rk - shape.length) 1 ++ shape
+
+theorem size_replicate_one (k : Nat) : size (List.replicate k 1) = 1 := by
+  induction k with
+  | zero => rfl
+  | succ k ih => rw [List.replicate_succ, size_cons, ih]
+
+theorem padShape_eq (rk : Nat) (shape : Shape) : padShape rk shape = ofNats (padded rk shape) := by
+  unfold padShape padded ofNats
+  rw [List.map_append, List.map_replicate]; rfl
+
+theorem resolve_pad (rk : Nat) (shape : Shape) : resolve (size shape) (padShape rk shape) = .ok (padded rk shape) := by
+  rw [padShape_eq]
+  have := resolve_ofNats (padded rk shape)
+  have hs : size (padded rk shape) = size shape := by
+    unfold padded; rw [size_append, size_replicate_one, Nat.one_mul]
+  rwa [hs] at this
+
+theorem padded_length {rk : Nat} {shape : Shape} (h : shape.length ≤ rk) : (padded rk shape).length = rk := by
+  unfold padded; simp; omega
+
+theorem padded_self {rk : Nat} {shape : Shape} (h : shape.length = rk) : padded rk shape = shape := by
+  unfold padded; rw [h, Nat.sub_self]; rfl
+
+/-- one object: "Add missing axes if necessary" is a reshape to the padded shape (or nothing) -/
+theorem pad0_reindex {q q1 : Q0 α} {rk : Nat} (hwf : WF0 q) (hitem : 0 < size q.item) (hrk : q.shape.length ≤ rk)
+    (hq1 : (if q.shape.length < rk then reshape0 q (padShape rk q.shape) else pure q) = .ok q1) :
+    LeadReindex (reshapeIdx q.shape (padded rk q.shape)) (padded rk q.shape) q q1 := by
+  split at hq1
+  · exact reshape0_reindex hwf hitem (resolve_pad rk q.shape) hq1
+  · have := pure_ok.1 hq1; subst this
+    rw [padded_self (by omega)]
+    exact LeadReindex.refl hwf _ (fun i hi => unravel_ravel hi)
+
+/-- one object: optional padding (a reshape), then the permuting core -/
+theorem padPerm0_reindex {np : {β : Type} → Arr β → Except Err (Arr β)} {q q1 q' : Q0 α} {rk : Nat} {p : List Nat}
+    (hwf : WF0 q) (hitem : 0 < size q.item) (hrk : q.shape.length ≤ rk)
+    (hq1 : (if q.shape.length < rk then reshape0 q (padShape rk q.shape) else pure q) = .ok q1)
+    (hp : IsPerm rk p) (hacts : ActsAs np (padded rk q.shape) p) (h : permCore np q1 = .ok q') :
+    LeadReindex (fun i => reshapeIdx q.shape (padded rk q.shape) (unpermute p i))
+      (permute p (padded rk q.shape)) q q' := by
+  have h1 := pad0_reindex hwf hitem hrk hq1
+  have hlen := padded_length hrk
+  have h2 := permCore_reindex h1.wf (by rw [h1.shape, hlen]; exact hp.1) (h1.shape ▸ hacts) h
+  rw [h1.shape] at h2
+  exact h1.trans h2 (fun i hi => valid_unpermute hp hlen hi)
+
+/-! ## roll_axis -/
+
+/-- the position the rolled axis ends up at (`numpy.rollaxis`: `if axis < start: start -= 1`) -/
+def rollDest (a1 a2 : Int) : Nat := if a1.toNat < a2.toNat then a2.toNat - 1 else a2.toNat
+
+/-- the leading-axis order of `roll_axis` for the normalised pair `(a1, a2)` at rank `rk` -/
+def rollOrder (rk : Nat) (a1 a2 : Int) : List Nat := rollPerm rk a1.toNat (rollDest a1 a2)
+
+theorem rollDest_lt {L : Nat} {a1 a2 : Int} (h1 : 0 ≤ a1) (h2 : a1 < L) (h3 : 0 ≤ a2) (h4 : a2 ≤ L) :
+    rollDest a1 a2 < L := by unfold rollDest; split <;> omega
+
+theorem roll_acts (shape : Shape) {a1 a2 : Int} (h1 : 0 ≤ a1) (h2 : a1 < shape.length) (h3 : 0 ≤ a2)
+    (h4 : a2 ≤ shape.length) :
+    ActsAs (fun x => NpShape.rollaxis x a1 a2) shape (rollOrder shape.length a1 a2) := by
+  intro β x item hx
+  have ha : a1.toNat < shape.length := by omega
+  have hd := rollDest_lt h1 h2 h3 h4
+  have hlen : x.shape.length = shape.length + item.length := by rw [hx, List.length_append]
+  have r := rollaxis_ok x (axis := a1) (start := a2) (a := a1.toNat) (s := a2)
+    (normAxis_of_nonneg h1 (by rw [hlen]; push_cast; omega)) (by rw [if_neg (by omega)]) h3
+    (by rw [hlen]; push_cast; omega)
+  change NpShape.rollaxis x a1 a2 = .ok (if a1.toNat = rollDest a1 a2 then x
+    else transpose x (rollPerm x.shape.length a1.toNat (rollDest a1 a2))) at r
+  unfold rollOrder
+  by_cases hc : a1.toNat = rollDest a1 a2
+  · rw [if_pos hc] at r
+    refine ⟨x, r, ?_, ?_⟩
+    · rw [← hc, rollPerm_self ha, permute_range, hx]
+    · intro i k hi _
+      rw [← hc, rollPerm_self ha, unpermute_range i hi]
+  · rw [if_neg hc, hlen, rollPerm_lead item.length ha hd] at r
+    exact ⟨_, r, transpose_lead x shape item _ (rollPerm_isPerm ha hd) hx⟩
+
+theorem rollOrder_isPerm {L : Nat} {a1 a2 : Int} (h1 : 0 ≤ a1) (h2 : a1 < L) (h3 : 0 ≤ a2) (h4 : a2 ≤ L) :
+    IsPerm L (rollOrder L a1 a2) := rollPerm_isPerm (by omega) (rollDest_lt h1 h2 h3 h4)
+
+/-- the leading map of `roll_axis`: un-permute, then un-pad -/
+def rollIdx (shape : Shape) (rk : Nat) (a1 a2 : Int) : Index → Index :=
+  fun i => reshapeIdx shape (padded rk shape) (unpermute (rollOrder rk a1 a2) i)
+
+theorem rollAxis0_eq (q : Q0 α) (axis start : Int) (rank : Option Nat) :
+    rollAxis0 q axis start rank = effRank q.shape.length rank >>= fun rk =>
+      rollNorm rk axis start >>= fun a => if q.shape = [] then pure q
+        else (if q.shape.length < rk then reshape0 q (padShape rk q.shape) else pure q) >>= fun q1 =>
+          rollCore q1 a.1 a.2 := by
+  unfold rollAxis0
+  simp only [bind, Except.bind, pure, Except.pure]
+  cases effRank q.shape.length rank with
+  | error e => rfl
+  | ok rk =>
+    simp only
+    cases rollNorm rk axis start with
+    | error e => rfl
+    | ok a =>
+      obtain ⟨a1, a2⟩ := a
+      simp only
+      split
+      · rfl
+      · split <;> rfl
+
+/-- op_is_reindex for `roll_axis`, one object, for ANY arguments that normalise to `(a1, a2)` at rank `rk` -/
+theorem rollAxis0_reindex {q q' : Q0 α} {x1 x2 a1 a2 : Int} {rank : Option Nat} {rk : Nat} (hwf : WF0 q)
+    (hitem : 0 < size q.item) (hne : q.shape ≠ []) (hrk : effRank q.shape.length rank = .ok rk)
+    (hn : rollNorm rk x1 x2 = .ok (a1, a2)) (h : rollAxis0 q x1 x2 rank = .ok q') :
+    LeadReindex (rollIdx q.shape rk a1 a2) (permute (rollOrder rk a1 a2) (padded rk q.shape)) q q' := by
+  obtain ⟨_, _, h1, h2, h3, h4⟩ := rollNorm_ok hn
+  have hle : q.shape.length ≤ rk := (effRank_idem hrk (by intro e; exact hne (List.length_eq_zero_iff.1 e))).2
+  rw [rollAxis0_eq] at h
+  obtain ⟨rk', e1, h⟩ := bind_ok.1 h
+  rw [hrk] at e1; injection e1 with e1; subst e1
+  obtain ⟨a, e2, h⟩ := bind_ok.1 h
+  rw [hn] at e2; injection e2 with e2; subst e2
+  rw [if_neg hne] at h
+  obtain ⟨q1, hq1, h⟩ := bind_ok.1 h
+  rw [rollCore_eq] at h
+  have hl := padded_length hle
+  exact padPerm0_reindex hwf hitem hle hq1 (rollOrder_isPerm h1 h2 h3 h4)
+    (by have this : ActsAs (fun x => NpShape.rollaxis x a1 a2) (padded rk q.shape)
+            (rollOrder (padded rk q.shape).length a1 a2) :=
+          roll_acts (padded rk q.shape) h1 (by rw [hl]; exact h2) h3 (by rw [hl]; exact h4)
+        rwa [hl] at this) h
+
+
+theorem forall₂_mem_right {R : (String × Q0 α) → (String × Q0 α) → Prop} :
+    ∀ {ds rs : List (String × Q0 α)}, List.Forall₂ R ds rs → ∀ kd' ∈ rs, ∃ kd ∈ ds, R kd kd'
+  | _, _, .nil, _, h => by cases h
+  | _, _, .cons hh ht, kd', h => by
+    rcases List.mem_cons.1 h with e | e
+    · subst e; exact ⟨_, by simp, hh⟩
+    · obtain ⟨kd, hkd, hr⟩ := forall₂_mem_right ht kd' e
+      exact ⟨kd, by simp [hkd], hr⟩
+
+/-- whole object: `self.reshape((rank - len) * (1,) + shape, recursive=True)` or nothing -/
+theorem padObj_reindex {q q1 : Q α} {rk : Nat} (hwf : WF q) (hitem : 0 < size q.base.item)
+    (hditem : ∀ kd ∈ q.derivs, 0 < size kd.2.item) (hrk : q.base.shape.length ≤ rk)
+    (hq1 : (if q.base.shape.length < rk then Shaper.reshape q (padShape rk q.base.shape) true else pure q) = .ok q1) :
+    ObjReindex (reshapeIdx q.base.shape (padded rk q.base.shape)) (padded rk q.base.shape) q q1 := by
+  split at hq1
+  · exact reshape_reindex hwf hitem hditem (resolve_pad rk q.base.shape) hq1
+  · have := pure_ok.1 hq1; subst this
+    rw [padded_self (by omega)]
+    have hid : ∀ i, Valid q.base.shape i → reshapeIdx q.base.shape q.base.shape i = i := fun i hi => unravel_ravel hi
+    exact ⟨LeadReindex.refl hwf.base _ hid, derivs_refl _ hid q.derivs hwf.derivs⟩
+
+/-- whole object: optional padding of the object AND its derivatives (`self.reshape(..., recursive)`), the
+    permuting core on the base, and a `recursive=False` call `f` on every (padded) derivative that realises the
+    same permutation: everything is re-indexed by the ONE map "un-permute, then un-pad" -/
+theorem padPermObj_reindex {np : {β : Type} → Arr β → Except Err (Arr β)} {q q1 : Q α} {b : Q0 α}
+    {ds : List (String × Q0 α)} {rk : Nat} {p : List Nat} {f : Q0 α → Except Err (Q0 α)}
+    (hwf : WF q) (hitem : 0 < size q.base.item) (hditem : ∀ kd ∈ q.derivs, 0 < size kd.2.item)
+    (hrk : q.base.shape.length ≤ rk)
+    (hq1 : (if q.base.shape.length < rk then Shaper.reshape q (padShape rk q.base.shape) true else pure q) = .ok q1)
+    (hp : IsPerm rk p) (hacts : ActsAs np (padded rk q.base.shape) p) (hb : permCore np q1.base = .ok b)
+    (hf : ∀ d d', WF0 d → 0 < size d.item → d.shape = padded rk q.base.shape → f d = .ok d' →
+      LeadReindex (unpermute p) (permute p (padded rk q.base.shape)) d d')
+    (hds : mapDerivs b q1.derivs f = .ok ds) :
+    ObjReindex (fun i => reshapeIdx q.base.shape (padded rk q.base.shape) (unpermute p i))
+      (permute p (padded rk q.base.shape)) q ⟨b, ds⟩ := by
+  have h1 := padObj_reindex hwf hitem hditem hrk hq1
+  have wf1 := h1.wf hwf
+  have hlen := padded_length hrk
+  have hbase := permCore_reindex wf1.base (by rw [h1.1.shape, hlen]; exact hp.1) (h1.1.shape ▸ hacts) hb
+  rw [h1.1.shape] at hbase
+  have h2 : ObjReindex (unpermute p) (permute p (padded rk q.base.shape)) q1 ⟨b, ds⟩ := by
+    refine ⟨hbase, ?_⟩
+    apply mapDerivs_forall₂ _ q1.derivs ds _ hds
+    intro kd' hkd' d1 hd1
+    obtain ⟨w, hs, _⟩ := wf1.derivs kd' hkd'
+    obtain ⟨kd, hkd, _, hr⟩ := forall₂_mem_right h1.2 kd' hkd'
+    have hit : 0 < size kd'.2.item := by
+      have := hditem kd hkd
+      unfold Q0.item at this ⊢
+      rwa [hr.numer, hr.denom]
+    have := hf kd'.2 d1 w hit (hs.trans h1.1.shape) hd1
+    exact ⟨this, this.shape.trans hbase.shape.symm⟩
+  exact h1.trans h2 (fun i hi => valid_unpermute hp hlen hi)
+
+theorem rollAxis_eq (q : Q α) (axis start : Int) (rank : Option Nat) :
+    rollAxis q axis start true rank = effRank q.base.shape.length rank >>= fun rk =>
+      rollNorm rk axis start >>= fun a => if q.base.shape = [] then pure q
+        else (if q.base.shape.length < rk then Shaper.reshape q (padShape rk q.base.shape) true else pure q) >>=
+          fun q1 => rollCore q1.base a.1 a.2 >>= fun b =>
+            mapDerivs b q1.derivs (rollAxis0 · a.1 a.2 (some rk)) >>= fun ds => pure ⟨b, ds⟩ := by
+  unfold rollAxis
+  simp only [bind, Except.bind, pure, Except.pure]
+  cases effRank q.base.shape.length rank with
+  | error e => rfl
+  | ok rk =>
+    simp only
+    cases rollNorm rk axis start with
+    | error e => rfl
+    | ok a =>
+      obtain ⟨a1, a2⟩ := a
+      simp only
+      split
+      · rfl
+      · split <;> rfl
+
+/-- **op_is_reindex for `roll_axis`, whole object** (incl. the `rank=` extension): values, mask and every
+    derivative are re-indexed by ONE map on the leading part; the recursive calls `deriv.roll_axis(a1, a2,
+    False, rank)` re-normalise to the same pair and rank (`rollNorm_idem`, `effRank_idem`) -/
+theorem rollAxis_reindex {q r : Q α} {axis start a1 a2 : Int} {rank : Option Nat} {rk : Nat} (hwf : WF q)
+    (hitem : 0 < size q.base.item) (hditem : ∀ kd ∈ q.derivs, 0 < size kd.2.item) (hne : q.base.shape ≠ [])
+    (hrk : effRank q.base.shape.length rank = .ok rk) (hn : rollNorm rk axis start = .ok (a1, a2))
+    (h : rollAxis q axis start true rank = .ok r) :
+    ObjReindex (rollIdx q.base.shape rk a1 a2) (permute (rollOrder rk a1 a2) (padded rk q.base.shape)) q r := by
+  obtain ⟨_, _, h1, h2, h3, h4⟩ := rollNorm_ok hn
+  have hlen0 : q.base.shape.length ≠ 0 := fun e => hne (List.length_eq_zero_iff.1 e)
+  obtain ⟨hrk', hle⟩ := effRank_idem hrk hlen0
+  rw [rollAxis_eq] at h
+  obtain ⟨rk', e1, h⟩ := bind_ok.1 h
+  rw [hrk] at e1; injection e1 with e1; subst e1
+  obtain ⟨a, e2, h⟩ := bind_ok.1 h
+  rw [hn] at e2; injection e2 with e2; subst e2
+  rw [if_neg hne] at h
+  obtain ⟨q1, hq1, h⟩ := bind_ok.1 h
+  obtain ⟨b, hb, h⟩ := bind_ok.1 h
+  obtain ⟨ds, hds, h⟩ := bind_ok.1 h
+  have := pure_ok.1 h; subst this
+  rw [rollCore_eq] at hb
+  have hl := padded_length hle
+  have hacts : ActsAs (fun x => NpShape.rollaxis x a1 a2) (padded rk q.base.shape) (rollOrder rk a1 a2) := by
+    have this : ActsAs (fun x => NpShape.rollaxis x a1 a2) (padded rk q.base.shape)
+        (rollOrder (padded rk q.base.shape).length a1 a2) :=
+      roll_acts (padded rk q.base.shape) h1 (by rw [hl]; exact h2) h3 (by rw [hl]; exact h4)
+    rwa [hl] at this
+  have hp := rollOrder_isPerm h1 h2 h3 h4
+  refine padPermObj_reindex hwf hitem hditem hle hq1 hp hacts hb ?_ hds
+  intro d d' wd hid hsd hd
+  have hdl : d.shape.length = rk := by rw [hsd, hl]
+  have hdne : d.shape ≠ [] := by
+    intro e; rw [e] at hdl; simp at hdl; omega
+  have := rollAxis0_reindex wd hid hdne (by rw [hdl]; exact hrk') (rollNorm_idem hn) hd
+  rw [padded_self hdl, hsd] at this
+  refine this.congr (fun i hi => ?_)
+  show unpermute _ i = reshapeIdx _ (padded rk (padded rk q.base.shape)) (unpermute _ i)
+  rw [padded_self hl]
+  exact (unravel_ravel (valid_unpermute hp hl hi)).symm
+
+
+/-! ## move_axis (any number of axes) -/
+
+theorem mapM_normAxis (n : Nat) : ∀ (l : List Int), (∀ x ∈ l, 0 ≤ x ∧ x < n) →
+    l.mapM (NpShape.normAxis n) = .ok (l.map Int.toNat)
+  | [], _ => rfl
+  | x :: xs, h => by
+    rw [List.mapM_cons, normAxis_of_nonneg (h x (by simp)).1 (h x (by simp)).2,
+      mapM_normAxis n xs (fun y hy => h y (by simp [hy]))]
+    rfl
+
+theorem normAxisTuple_eq (n : Nat) (l : List Int) (h : ∀ x ∈ l, 0 ≤ x ∧ x < n) :
+    normAxisTuple n l = if hasDup (l.map Int.toNat) then .error .value else .ok (l.map Int.toNat) := by
+  unfold normAxisTuple
+  rw [mapM_normAxis n l h]
+  rfl
+
+theorem moveaxis_eq {β : Type} (x : Arr β) (s' d' : List Int)
+    (hs : ∀ y ∈ s', 0 ≤ y ∧ y < x.shape.length) (hd : ∀ y ∈ d', 0 ≤ y ∧ y < x.shape.length) :
+    NpShape.moveaxis x s' d' =
+      if hasDup (s'.map Int.toNat) then .error .value
+      else if hasDup (d'.map Int.toNat) then .error .value
+      else if (s'.map Int.toNat).length ≠ (d'.map Int.toNat).length then .error .value
+      else .ok (transpose x (movePerm x.shape.length (s'.map Int.toNat) (d'.map Int.toNat))) := by
+  unfold NpShape.moveaxis
+  simp only [normAxisTuple_eq _ _ hs, normAxisTuple_eq _ _ hd]
+  split
+  · rfl
+  · split
+    · rfl
+    · simp only [bind, Except.bind, pure, Except.pure]
+
+/-- the leading-axis order of `move_axis` for normalised axis lists at rank `rk` -/
+def moveOrder (rk : Nat) (s' d' : List Int) : List Nat := movePerm rk (s'.map Int.toNat) (d'.map Int.toNat)
+
+/-- the facts about normalised axis lists under which `numpy.moveaxis` accepts them -/
+structure MoveOk (L : Nat) (s' d' : List Int) : Prop where
+  srange : ∀ y ∈ s', 0 ≤ y ∧ y < (L : Int)
+  drange : ∀ y ∈ d', 0 ≤ y ∧ y < (L : Int)
+  snodup : hasDup (s'.map Int.toNat) = false
+  dnodup : hasDup (d'.map Int.toNat) = false
+  len : (s'.map Int.toNat).length = (d'.map Int.toNat).length
+
+theorem MoveOk.lt {L : Nat} {l : List Int} (h : ∀ y ∈ l, 0 ≤ y ∧ y < (L : Int)) : ∀ x ∈ l.map Int.toNat, x < L := by
+  intro x hx
+  obtain ⟨y, hy, rfl⟩ := List.mem_map.1 hx
+  have := h y hy; omega
+
+theorem moveOrder_isPerm {L : Nat} {s' d' : List Int} (h : MoveOk L s' d') : IsPerm L (moveOrder L s' d') :=
+  movePerm_isPerm (hasDup_false_nodup _ h.snodup) (MoveOk.lt h.srange) h.len.symm
+
+theorem move_acts (shape : Shape) {s' d' : List Int} (h : MoveOk shape.length s' d') :
+    ActsAs (fun x => NpShape.moveaxis x s' d') shape (moveOrder shape.length s' d') := by
+  intro β x item hx
+  have hlen : x.shape.length = shape.length + item.length := by rw [hx, List.length_append]
+  have hs : ∀ y ∈ s', 0 ≤ y ∧ y < (x.shape.length : Int) := fun y hy => by
+    have := h.srange y hy; rw [hlen]; push_cast; omega
+  have hd : ∀ y ∈ d', 0 ≤ y ∧ y < (x.shape.length : Int) := fun y hy => by
+    have := h.drange y hy; rw [hlen]; push_cast; omega
+  have e := moveaxis_eq x s' d' hs hd
+  rw [if_neg (by rw [h.snodup]; simp), if_neg (by rw [h.dnodup]; simp), if_neg (by rw [h.len]; simp)] at e
+  refine ⟨_, e, ?_⟩
+  unfold moveOrder
+  rw [hlen, movePerm_lead item.length (hasDup_false_nodup _ h.snodup) (hasDup_false_nodup _ h.dnodup)
+    (MoveOk.lt h.srange) (MoveOk.lt h.drange) h.len.symm]
+  exact transpose_lead x shape item _ (moveOrder_isPerm h) hx
+
+/-- if NumPy accepted the normalised lists on some array of at least `L` axes, they are acceptable -/
+theorem moveOk_of_ok {β : Type} {L : Nat} (x y : Arr β) {s' d' : List Int} (hL : L ≤ x.shape.length)
+    (hs : ∀ z ∈ s', 0 ≤ z ∧ z < (L : Int)) (hd : ∀ z ∈ d', 0 ≤ z ∧ z < (L : Int))
+    (h : NpShape.moveaxis x s' d' = .ok y) : MoveOk L s' d' := by
+  have hs' : ∀ z ∈ s', 0 ≤ z ∧ z < (x.shape.length : Int) := fun z hz => by have := hs z hz; omega
+  have hd' : ∀ z ∈ d', 0 ≤ z ∧ z < (x.shape.length : Int) := fun z hz => by have := hd z hz; omega
+  rw [moveaxis_eq x s' d' hs' hd'] at h
+  split at h; · cases h
+  split at h; · cases h
+  split at h; · cases h
+  rename_i h1 h2 h3
+  exact ⟨hs, hd, by simpa using h1, by simpa using h2, by simpa using h3⟩
+
+
+/-- the leading map of `move_axis`: un-permute, then un-pad -/
+def moveIdx (shape : Shape) (rk : Nat) (s' d' : List Int) : Index → Index :=
+  fun i => reshapeIdx shape (padded rk shape) (unpermute (moveOrder rk s' d') i)
+
+theorem moveAxis0_eq (q : Q0 α) (source destination : List Int) (rank : Option Nat) :
+    moveAxis0 q source destination rank = effRank q.shape.length rank >>= fun rk =>
+      moveNorm rk source destination >>= fun a => if q.shape = [] then pure q
+        else (if q.shape.length < rk then reshape0 q (padShape rk q.shape) else pure q) >>= fun q1 =>
+          moveCore q1 a.1 a.2 := by
+  unfold moveAxis0
+  simp only [bind, Except.bind, pure, Except.pure]
+  cases effRank q.shape.length rank with
+  | error e => rfl
+  | ok rk =>
+    simp only
+    cases moveNorm rk source destination with
+    | error e => rfl
+    | ok a =>
+      obtain ⟨a1, a2⟩ := a
+      simp only
+      split
+      · rfl
+      · split <;> rfl
+
+theorem moveNorm_ranges {n : Nat} {src dst s' d' : List Int} (h : moveNorm n src dst = .ok (s', d')) :
+    (∀ y ∈ s', 0 ≤ y ∧ y < (n : Int)) ∧ (∀ y ∈ d', 0 ≤ y ∧ y < (n : Int)) := by
+  obtain ⟨e1, e2, hall⟩ := moveNorm_ok h
+  subst e1 e2
+  constructor
+  · intro y hy
+    obtain ⟨x, hx, rfl⟩ := List.mem_map.1 hy
+    exact (hall x (List.mem_append_left _ hx)).2
+  · intro y hy
+    obtain ⟨x, hx, rfl⟩ := List.mem_map.1 hy
+    exact (hall x (List.mem_append_right _ hx)).2
+
+/-- a successful permuting core tells that NumPy accepted the arguments on the values array -/
+theorem permCore_vals_ok {np : {β : Type} → Arr β → Except Err (Arr β)} {q q' : Q0 α} (h : permCore np q = .ok q') :
+    ∃ nv, np q.vals = .ok nv := by
+  unfold permCore at h
+  obtain ⟨nv, hnv, _⟩ := bind_ok.1 h
+  exact ⟨nv, hnv⟩
+
+/-- op_is_reindex for `move_axis`, one object, any number of axes, for ANY arguments normalising to `(s', d')` -/
+theorem moveAxis0_reindex {q q' : Q0 α} {x1 x2 s' d' : List Int} {rank : Option Nat} {rk : Nat} (hwf : WF0 q)
+    (hitem : 0 < size q.item) (hne : q.shape ≠ []) (hrk : effRank q.shape.length rank = .ok rk)
+    (hn : moveNorm rk x1 x2 = .ok (s', d')) (h : moveAxis0 q x1 x2 rank = .ok q') :
+    LeadReindex (moveIdx q.shape rk s' d') (permute (moveOrder rk s' d') (padded rk q.shape)) q q' := by
+  obtain ⟨hsr, hdr⟩ := moveNorm_ranges hn
+  have hle : q.shape.length ≤ rk := (effRank_idem hrk (by intro e; exact hne (List.length_eq_zero_iff.1 e))).2
+  rw [moveAxis0_eq] at h
+  obtain ⟨rk', e1, h⟩ := bind_ok.1 h
+  rw [hrk] at e1; injection e1 with e1; subst e1
+  obtain ⟨a, e2, h⟩ := bind_ok.1 h
+  rw [hn] at e2; injection e2 with e2; subst e2
+  rw [if_neg hne] at h
+  obtain ⟨q1, hq1, h⟩ := bind_ok.1 h
+  rw [moveCore_eq] at h
+  have hl := padded_length hle
+  have h1 := pad0_reindex hwf hitem hle hq1
+  obtain ⟨nv, hnv⟩ := permCore_vals_ok h
+  have hok : MoveOk rk s' d' := moveOk_of_ok q1.vals nv
+    (by rw [h1.wf.vshape, h1.shape, List.length_append, List.length_append, hl]; omega) hsr hdr hnv
+  exact padPerm0_reindex hwf hitem hle hq1 (moveOrder_isPerm hok)
+    (by have this : ActsAs (fun x => NpShape.moveaxis x s' d') (padded rk q.shape)
+            (moveOrder (padded rk q.shape).length s' d') := move_acts (padded rk q.shape) (by rw [hl]; exact hok)
+        rwa [hl] at this) h
+
+theorem moveAxis_eq (q : Q α) (source destination : List Int) (rank : Option Nat) :
+    moveAxis q source destination true rank = effRank q.base.shape.length rank >>= fun rk =>
+      moveNorm rk source destination >>= fun a => if q.base.shape = [] then pure q
+        else (if q.base.shape.length < rk then Shaper.reshape q (padShape rk q.base.shape) true else pure q) >>=
+          fun q1 => moveCore q1.base a.1 a.2 >>= fun b =>
+            mapDerivs b q1.derivs (moveAxis0 · a.1 a.2 (some rk)) >>= fun ds => pure ⟨b, ds⟩ := by
+  unfold moveAxis
+  simp only [bind, Except.bind, pure, Except.pure]
+  cases effRank q.base.shape.length rank with
+  | error e => rfl
+  | ok rk =>
+    simp only
+    cases moveNorm rk source destination with
+    | error e => rfl
+    | ok a =>
+      obtain ⟨a1, a2⟩ := a
+      simp only
+      split
+      · rfl
+      · split <;> rfl
+
+/-- **op_is_reindex for `move_axis`, whole object**, any number of axes moved at once, incl. `rank=` -/
+theorem moveAxis_reindex {q r : Q α} {source destination s' d' : List Int} {rank : Option Nat} {rk : Nat}
+    (hwf : WF q) (hitem : 0 < size q.base.item) (hditem : ∀ kd ∈ q.derivs, 0 < size kd.2.item)
+    (hne : q.base.shape ≠ []) (hrk : effRank q.base.shape.length rank = .ok rk)
+    (hn : moveNorm rk source destination = .ok (s', d')) (h : moveAxis q source destination true rank = .ok r) :
+    ObjReindex (moveIdx q.base.shape rk s' d') (permute (moveOrder rk s' d') (padded rk q.base.shape)) q r := by
+  obtain ⟨hsr, hdr⟩ := moveNorm_ranges hn
+  have hlen0 : q.base.shape.length ≠ 0 := fun e => hne (List.length_eq_zero_iff.1 e)
+  obtain ⟨hrk', hle⟩ := effRank_idem hrk hlen0
+  rw [moveAxis_eq] at h
+  obtain ⟨rk', e1, h⟩ := bind_ok.1 h
+  rw [hrk] at e1; injection e1 with e1; subst e1
+  obtain ⟨a, e2, h⟩ := bind_ok.1 h
+  rw [hn] at e2; injection e2 with e2; subst e2
+  rw [if_neg hne] at h
+  obtain ⟨q1, hq1, h⟩ := bind_ok.1 h
+  obtain ⟨b, hb, h⟩ := bind_ok.1 h
+  obtain ⟨ds, hds, h⟩ := bind_ok.1 h
+  have := pure_ok.1 h; subst this
+  rw [moveCore_eq] at hb
+  have hl := padded_length hle
+  have h1 := padObj_reindex hwf hitem hditem hle hq1
+  obtain ⟨nv, hnv⟩ := permCore_vals_ok hb
+  have hok : MoveOk rk s' d' := moveOk_of_ok q1.base.vals nv
+    (by rw [h1.1.wf.vshape, h1.1.shape, List.length_append, List.length_append, hl]; omega) hsr hdr hnv
+  have hacts : ActsAs (fun x => NpShape.moveaxis x s' d') (padded rk q.base.shape) (moveOrder rk s' d') := by
+    have this : ActsAs (fun x => NpShape.moveaxis x s' d') (padded rk q.base.shape)
+        (moveOrder (padded rk q.base.shape).length s' d') := move_acts (padded rk q.base.shape) (by rw [hl]; exact hok)
+    rwa [hl] at this
+  have hp := moveOrder_isPerm hok
+  refine padPermObj_reindex hwf hitem hditem hle hq1 hp hacts hb ?_ hds
+  intro d d' wd hid hsd hd
+  have hdl : d.shape.length = rk := by rw [hsd, hl]
+  have hdne : d.shape ≠ [] := by
+    intro e; rw [e] at hdl; simp at hdl; omega
+  have := moveAxis0_reindex wd hid hdne (by rw [hdl]; exact hrk') (moveNorm_idem hn) hd
+  rw [padded_self hdl, hsd] at this
+  refine this.congr (fun i hi => ?_)
+  show unpermute _ i = reshapeIdx _ (padded rk (padded rk q.base.shape)) (unpermute _ i)
+  rw [padded_self hl]
+  exact (unravel_ravel (valid_unpermute hp hl hi)).symm
+
+
+/-! ## pi_eq_numpy: on an array of the LEADING shape, NumPy called with the ORIGINAL arguments does what it does
+       with the code's normalised arguments — so the `π` of the theorems above is NumPy's own map -/
+
+theorem swapaxes_norm_eq {β : Type} (x : Arr β) {ax1 ax2 b1 b2 : Int}
+    (hn : swapNorm x.shape.length ax1 ax2 = .ok (b1, b2)) :
+    NpShape.swapaxes x ax1 ax2 = NpShape.swapaxes x b1 b2 := by
+  obtain ⟨n1, n2, h1, h2, h3, h4⟩ := swapNorm_ok hn
+  rw [swapaxes_ok x n1 n2, swapaxes_ok x (normAxis_of_nonneg h1 h2) (normAxis_of_nonneg h3 h4)]
+
+theorem rollaxis_norm_eq {β : Type} (x : Arr β) {axis start a1 a2 : Int}
+    (hn : rollNorm x.shape.length axis start = .ok (a1, a2)) :
+    NpShape.rollaxis x axis start = NpShape.rollaxis x a1 a2 := by
+  obtain ⟨n1, e2, h1, h2, h3, h4⟩ := rollNorm_ok hn
+  rw [rollaxis_ok x n1 e2.symm h3 (by omega),
+    rollaxis_ok x (normAxis_of_nonneg h1 h2) (by rw [if_neg (by omega)]) h3 (by omega)]
+
+theorem mapM_normAxis_orig (n : Nat) : ∀ (l : List Int),
+    (∀ x ∈ l, NpShape.normAxis n x = .ok (x % (n : Int)).toNat) →
+    l.mapM (NpShape.normAxis n) = .ok ((l.map (· % (n : Int))).map Int.toNat)
+  | [], _ => rfl
+  | x :: xs, h => by
+    rw [List.mapM_cons, h x (by simp), mapM_normAxis_orig n xs (fun y hy => h y (by simp [hy]))]
+    rfl
+
+theorem moveaxis_norm_eq {β : Type} (x : Arr β) {src dst s' d' : List Int}
+    (hn : moveNorm x.shape.length src dst = .ok (s', d')) :
+    NpShape.moveaxis x src dst = NpShape.moveaxis x s' d' := by
+  obtain ⟨hsr, hdr⟩ := moveNorm_ranges hn
+  obtain ⟨e1, e2, hall⟩ := moveNorm_ok hn
+  unfold NpShape.moveaxis normAxisTuple
+  simp only
+  rw [mapM_normAxis _ s' hsr, mapM_normAxis _ d' hdr,
+    mapM_normAxis_orig _ src (fun y hy => (hall y (List.mem_append_left _ hy)).1),
+    mapM_normAxis_orig _ dst (fun y hy => (hall y (List.mem_append_right _ hy)).1), ← e1, ← e2]
+
+/-! ## broadcast_to: the re-indexing map is NumPy's broadcast projection `bidx` (elements are duplicated, by
+       broadcasting only; none is lost or re-masked) -/
+
+theorem broadcastTo0_eq (q : Q0 α) (shape : List Int) :
+    broadcastTo0 q shape = if shape = ofNats q.shape then .ok q
+      else if shape = [] then
+        NpShape.reshape q.vals (ofNats q.item) >>= fun nv =>
+          likeSelf q nv (match q.mask with | .all b => .all b | .arr a => .all (a.get (unravel a.shape 0)))
+      else NpShape.broadcastTo q.vals (shape ++ ofNats q.item) >>= fun nv =>
+        maskThrough (fun x => NpShape.broadcastTo x shape) q.mask >>= fun nm => likeSelf q nv nm := by
+  unfold broadcastTo0 maskThrough
+  split
+  · rfl
+  · split
+    · cases NpShape.reshape q.vals (ofNats q.item) <;> rfl
+    · cases q.mask <;> rfl
+
+theorem npBroadcastTo_ok {β : Type} {x y : Arr β} {shape : List Int} (h : NpShape.broadcastTo x shape = .ok y) :
+    y = x.bto (shape.map Int.toNat) := by
+  unfold NpShape.broadcastTo at h
+  split at h; · cases h
+  simp only at h
+  split at h
+  · injection h with h; exact h.symm
   · cases h
 
-example : resolve 6 [2, -1] = .ok [2, 3] ∧ resolve 6 [-3, 2] = .ok [3, 2] ∧ resolve 6 [] = .error .value := by decide
+/-- op_is_reindex for `broadcast_to` (target other than `()`), one object: `π = bidx q.shape`, the NumPy
+    projection of a result index onto the operand (right-aligned, length-1 axes ↦ 0) -/
+theorem broadcastTo0_reindex {q q' : Q0 α} {shape : List Int} (hwf : WF0 q) (hne : shape = [] → q.shape = [])
+    (h : broadcastTo0 q shape = .ok q') :
+    LeadReindex (bidx q.shape) (shape.map Int.toNat) q q' := by
+  rw [broadcastTo0_eq] at h
+  split at h
+  · rename_i heq
+    injection h with h; subst h
+    have e : shape.map Int.toNat = q.shape := by rw [heq]; exact map_toNat_ofNats q.shape
+    rw [e]
+    exact LeadReindex.refl hwf _ (fun i hi => bidx_self hi)
+  · rename_i hns
+    have hne' : shape ≠ [] := fun e => hns (by rw [e, hne e]; rfl)
+    rw [if_neg hne'] at h
+    obtain ⟨nv, hnv, h⟩ := bind_ok.1 h
+    obtain ⟨nm, hnm, h⟩ := bind_ok.1 h
+    have hnv' := npBroadcastTo_ok hnv
+    have hvs : q.vals.shape = q.shape ++ q.item := by rw [hwf.vshape, List.append_assoc]; rfl
+    have hmap : (shape ++ ofNats q.item).map Int.toNat = shape.map Int.toNat ++ q.item := by
+      rw [List.map_append, map_toNat_ofNats]
+    subst hnv'
+    refine likeSelf_reindex (by show (shape ++ ofNats q.item).map Int.toNat = _; rw [hmap]; unfold Q0.item
+                                rw [List.append_assoc]) ?_ ?_ h
+    · intro i k _ hk
+      show q.vals.get (bidx q.vals.shape (i ++ k)) = _
+      rw [hvs, bidx_append _ _ _ _ (NpShape.valid_length hk), bidx_self hk]
+    · cases hm : q.mask with
+      | all b =>
+        rw [hm] at hnm
+        exact Or.inl ⟨b, rfl, (pure_ok.1 hnm).symm⟩
+      | arr a =>
+        rw [hm] at hnm
+        unfold maskThrough at hnm
+        obtain ⟨a', ha', e⟩ := map_ok.1 hnm
+        simp only at ha'
+        have := npBroadcastTo_ok ha'; subst this
+        refine Or.inr ⟨a, _, rfl, e.symm, rfl, fun i _ => ?_⟩
+        show a.get (bidx a.shape i) = _
+        rw [hwf.mshape a hm]
 
-/- FULL (not proved; the pieces above are, their composition inside the object-level functions is
-   checked by the correspondence run only):
-     ∀ q ax1 ax2 r, WF q → swapAxes q ax1 ax2 true = .ok r →
-       ∃ p, IsPerm q.base.shape.length p ∧ LeadReindex (unpermute p) q.base r.base ∧
-            List.Forall₂ (fun kd kd' => kd.1 = kd'.1 ∧ LeadReindex (unpermute p) kd.2 kd'.2) q.derivs r.derivs
-   (and likewise for rollAxis / moveAxis / reshape / broadcastTo), where LeadReindex π q q' says: same class,
-   numer, denom; q'.vals (i ++ k) = q.vals (π i ++ k); q'.mask.at i = q.mask.at (π i).
-   `swap_axes_is_reindex`, `roll_axis_is_reindex`, `reshape_is_reindex` are this statement for the two NumPy
-   calls each function makes; `swapNorm_idem`, `rollNorm_idem`, `moveNorm_idem`, `effRank_idem` are what makes
-   the derivative recursion use the same `p`; `construct_ok`, `suitableMask_at` cover the constructor.
-   FULL (not proved): resolve (size lead * size item) (shape ++ ofNats item) = (resolve (size lead) shape).map (· ++ item). -/
+theorem broadcastTo_eq (q : Q α) (shape : List Int) :
+    Shaper.broadcastTo q shape true = if shape = ofNats q.base.shape then .ok q
+      else broadcastTo0 q.base shape >>= fun b =>
+        mapDerivs b q.derivs (broadcastTo0 · shape) >>= fun ds => pure ⟨b, ds⟩ := by
+  unfold Shaper.broadcastTo
+  split <;> rfl
 
-/-! ## 3. bijectivity: nothing lost, nothing duplicated -/
+/-- **op_is_reindex for `broadcast_to`, whole object**: values, mask and every derivative are projected by
+    the ONE map `bidx shape`; items untouched -/
+theorem broadcastTo_reindex {q r : Q α} {shape : List Int} (hwf : WF q) (hne : shape = [] → q.base.shape = [])
+    (h : Shaper.broadcastTo q shape true = .ok r) :
+    ObjReindex (bidx q.base.shape) (shape.map Int.toNat) q r := by
+  rw [broadcastTo_eq] at h
+  split at h
+  · rename_i heq
+    injection h with h; subst h
+    have e : shape.map Int.toNat = q.base.shape := by rw [heq]; exact map_toNat_ofNats q.base.shape
+    rw [e]
+    have hid : ∀ i, Valid q.base.shape i → bidx q.base.shape i = i := fun i hi => bidx_self hi
+    exact ⟨LeadReindex.refl hwf.base _ hid, derivs_refl _ hid q.derivs hwf.derivs⟩
+  · obtain ⟨b, hb, h⟩ := bind_ok.1 h
+    obtain ⟨ds, hds, h⟩ := bind_ok.1 h
+    have := pure_ok.1 h; subst this
+    have hbase := broadcastTo0_reindex hwf.base hne hb
+    refine ⟨hbase, ?_⟩
+    apply mapDerivs_forall₂ _ q.derivs ds _ hds
+    intro kd hkd d1 hd1
+    obtain ⟨w, hs, _⟩ := hwf.derivs kd hkd
+    have := broadcastTo0_reindex w (fun e => hs.trans (hne e)) hd1
+    rw [hs] at this
+    exact ⟨this, this.shape.trans hbase.shape.symm⟩
 
-/-- the reshape map is a bijection between the valid index sets of two shapes of equal size -/
-theorem reshape_bijective (old new : Shape) (hsz : size new = size old) :
-    (∀ i, Valid new i → Valid old (unravel old (ravel new i))) ∧
-    (∀ i, Valid new i → unravel new (ravel old (unravel old (ravel new i))) = i) ∧
-    (∀ j, Valid old j → Valid new (unravel new (ravel old j)) ∧
-      unravel old (ravel new (unravel new (ravel old j))) = j) := by
-  refine ⟨fun i hi => unravel_valid old _ (hsz ▸ ravel_lt hi), fun i hi => ?_, fun j hj => ?_⟩
-  · rw [ravel_unravel old _ (hsz ▸ ravel_lt hi), unravel_ravel hi]
-  · have hlt : ravel old j < size new := hsz ▸ ravel_lt hj
-    exact ⟨unravel_valid new _ hlt, by rw [ravel_unravel new _ hlt, unravel_ravel hj]⟩
+/-! ## join_items / split_items: inverse pair; casts change the class only -/
 
-/-- an axis permutation is a bijection between the valid index sets, for every rank -/
-theorem transpose_bijective {n : Nat} (p : List Nat) (s : Shape) (hp : IsPerm n p) (hs : s.length = n) :
-    (∀ idx, Valid (permute p s) idx → Valid s (unpermute p idx) ∧ permute p (unpermute p idx) = idx) ∧
-    (∀ j, Valid s j → Valid (permute p s) (permute p j) ∧ unpermute p (permute p j) = j) := by
-  constructor
-  · intro idx hi
-    refine ⟨valid_unpermute hp hs hi, permute_unpermute hp ?_⟩
-    rw [valid_length hi, length_permute, hp.1]
-  · intro j hj
-    exact ⟨valid_permute hp hs hj, unpermute_permute hp (by rw [valid_length hj, hs])⟩
+/-- the constructor re-splits the full shape at the ranks it is told; values and mask are taken as given -/
+theorem construct_split {cls : Cls} {vals : Arr α} {mask : Mask} {nr dr : Nat} {q' : Q0 α} {s n d : Shape}
+    (h : construct cls vals mask nr dr = .ok q') (hv : vals.shape = s ++ n ++ d) (hn : n.length = nr)
+    (hd : d.length = dr) (hm : ∀ a, mask = .arr a → a.shape = s) :
+    q'.cls = cls ∧ q'.vals = vals ∧ q'.shape = s ∧ q'.numer = n ∧ q'.denom = d ∧ q'.mask = mask ∧ WF0 q' := by
+  obtain ⟨hc, hvv, hs, hnn, hdd, hmm⟩ := construct_ok h
+  rw [hv] at hs
+  obtain ⟨e1, e2, e3⟩ := append3_inj hs (hnn.trans hn.symm) (hdd.trans hd.symm)
+  have hmask : q'.mask = mask := suitableMask_at hmm (fun a ha => by rw [hm a ha, e1])
+  refine ⟨hc, hvv, e1, e2, e3, hmask, ⟨by rw [hvv, hv, e1, e2, e3], fun a ha => ?_⟩⟩
+  rw [hmask] at ha; rw [hm a ha, e1]
 
-/-! ## 4. inverse pairs compose to the identity -/
-
-/-- swapping the same two axes twice gives back every element and the shape -/
-theorem swap_swap {α} (x : Arr α) {n a b : Nat} (hx : x.shape.length = n) (ha : a < n) (hb : b < n) :
-    let p := swapPerm n a b
-    (transpose (transpose x p) p).shape = x.shape ∧
-    ∀ idx : Index, idx.length = n → (transpose (transpose x p) p).get idx = x.get idx := by
-  have hp := swapPerm_isPerm ha hb
-  refine ⟨?_, fun idx hi => ?_⟩
-  · show permute _ (permute _ x.shape) = x.shape
-    rw [permute_permute _ _ _ (fun m hm => by rw [hp.1]; exact hp.2.2 m hm), swapPerm_invol ha hb, ← hx, permute_range]
-  · show x.get (unpermute _ (unpermute _ idx)) = _
-    rw [unpermute_unpermute_of_inverse hp hp (swapPerm_invol ha hb) hi]
-
-/-- rolling axis `a` to position `s` and rolling it back restores every element and the shape -/
-theorem roll_roll_back {α} (x : Arr α) {n a s : Nat} (hx : x.shape.length = n) (ha : a < n) (hs : s < n) :
-    (transpose (transpose x (rollPerm n a s)) (rollPerm n s a)).shape = x.shape ∧
-    ∀ idx : Index, idx.length = n →
-      (transpose (transpose x (rollPerm n a s)) (rollPerm n s a)).get idx = x.get idx := by
-  have hp := rollPerm_isPerm ha hs
-  have hp' := rollPerm_isPerm hs ha
-  refine ⟨?_, fun idx hi => ?_⟩
-  · show permute _ (permute _ x.shape) = x.shape
-    rw [permute_permute _ _ _ (fun m hm => by rw [hp.1]; exact hp'.2.2 m hm), rollPerm_inverse ha hs, ← hx, permute_range]
-  · show x.get (unpermute _ (unpermute _ idx)) = _
-    rw [unpermute_unpermute_of_inverse hp hp' (rollPerm_inverse ha hs) hi]
-
-/-- moving one axis and moving it back: `moveaxis(s, d)` then `moveaxis(d, s)` -/
-theorem move_move_back {α} (x : Arr α) {n s d : Nat} (hx : x.shape.length = n) (hs : s < n) (hd : d < n) :
-    (transpose (transpose x (movePerm n [s] [d])) (movePerm n [d] [s])).shape = x.shape ∧
-    ∀ idx : Index, idx.length = n →
-      (transpose (transpose x (movePerm n [s] [d])) (movePerm n [d] [s])).get idx = x.get idx := by
-  rw [movePerm_single n s d hs, movePerm_single n d s hd]
-  exact roll_roll_back x hx hs hd
-
-/-- reshape to a shape of the same size and back restores every element -/
-theorem reshape_reshape {α} (x : Arr α) (new : Shape) (hsz : size new = size x.shape) :
-    (reshapeTo (reshapeTo x new) x.shape).shape = x.shape ∧
-    ∀ j : Index, Valid x.shape j → (reshapeTo (reshapeTo x new) x.shape).get j = x.get j := by
-  refine ⟨rfl, fun j hj => ?_⟩
-  show x.get (unravel x.shape (ravel new (unravel new (ravel x.shape j)))) = _
-  rw [ravel_unravel new _ (hsz ▸ ravel_lt hj), unravel_ravel hj]
-
-/-- `flatten` then `reshape` to the old shape restores every element -/
-theorem flatten_reshape {α} (x : Arr α) :
-    ∀ j : Index, Valid x.shape j → (reshapeTo (reshapeTo x [size x.shape]) x.shape).get j = x.get j :=
-  (reshape_reshape x [size x.shape] (by simp [size_cons, size_nil])).2
-
-/-! ## 5. the number of masked elements never changes -/
-
-/-- reshape lists the same mask bits in the same order: the count of masked elements is preserved -/
-theorem reshape_mask_count (m : Arr Bool) (new : Shape) (hsz : size new = size m.shape) :
-    (reshapeTo m new).toList.countP id = m.toList.countP id := by
-  rw [toList_reshapeTo m new hsz]
-
-/-- an axis permutation lists a rearrangement of the same mask bits: the count is preserved -/
-theorem transpose_mask_count {n : Nat} (m : Arr Bool) (p : List Nat) (hp : IsPerm n p) (hm : m.shape.length = n) :
-    (transpose m p).toList.countP id = m.toList.countP id := by
-  unfold Arr.toList transpose
-  simp only
-  have hperm : ((indices (permute p m.shape)).map (unpermute p)).Perm (indices m.shape) := by
-    rw [List.perm_ext_iff_of_nodup]
-    · intro j
-      constructor
-      · intro hj
-        obtain ⟨idx, hidx, rfl⟩ := List.mem_map.1 hj
-        exact valid_mem_indices (valid_unpermute hp hm (mem_indices_valid hidx))
-      · intro hj
-        have hv := mem_indices_valid hj
-        refine List.mem_map.2 ⟨permute p j, valid_mem_indices (valid_permute hp hm hv), ?_⟩
-        exact unpermute_permute hp (by rw [valid_length hv, hm])
-    · apply List.Nodup.map_on _ (indices_nodup _)
-      intro x hx y hy hxy
-      have lx : x.length = n := by rw [valid_length (mem_indices_valid hx), length_permute, hp.1]
-      have ly : y.length = n := by rw [valid_length (mem_indices_valid hy), length_permute, hp.1]
-      rw [← permute_unpermute hp lx, ← permute_unpermute hp ly, hxy]
-    · exact indices_nodup _
-  have e : (indices (permute p m.shape)).map (fun idx => m.get (unpermute p idx))
-      = ((indices (permute p m.shape)).map (unpermute p)).map m.get := by rw [List.map_map]; rfl
-  rw [e]
-  exact (hperm.map m.get).countP_eq _
-
-/-! ## 5b. item-axis transposes act on the item part of the index only -/
-
-/-- an order that keeps the `L` leading axes in place and permutes the item axes by `q` -/
-def itemOrder (L : Nat) (q : List Nat) : List Nat := List.range L ++ q.map (L + ·)
-
-theorem permute_item_shape {m : Nat} {q : List Nat} (s t : List Nat) (_hq : IsPerm m q) (_ht : t.length = m) :
-    permute (itemOrder s.length q) (s ++ t) = s ++ permute q t := by
-  unfold permute itemOrder
-  rw [List.map_append]
-  congr 1
-  · apply List.ext_getElem (by simp)
-    intro k h1 h2
-    simp only [List.getElem_map, List.getElem_range]
-    rw [getD_append_left _ _ _ h2, getD_of_lt _ _ h2]
-  · rw [List.map_map]
-    apply List.map_congr_left
-    intro y _
-    simp only [Function.comp]
-    exact getD_append_right s t y
-
-theorem unpermute_item_index {m : Nat} {q : List Nat} (i k : List Nat) (hq : IsPerm m q) (_hk : k.length = m) :
-    unpermute (itemOrder i.length q) (i ++ k) = i ++ unpermute q k := by
-  have hl := hq.1
-  unfold unpermute
-  have hlen : (itemOrder i.length q).length = i.length + q.length := by simp [itemOrder]
-  rw [hlen, List.range_add, List.map_append]
-  congr 1
-  · apply List.ext_getElem (by simp)
-    intro x h1 h2
-    simp only [List.getElem_map, List.getElem_range]
-    have hmem : x ∈ List.range i.length := List.mem_range.2 h2
-    have hidx : (List.range i.length).idxOf x = x := by
-      have : (List.range i.length)[x]'(by simpa using h2) = x := by simp
-      conv => lhs; rw [← this]
-      exact List.nodup_range.idxOf_getElem _ _
-    unfold itemOrder
-    rw [List.idxOf_append_of_mem hmem, hidx, getD_append_left _ _ _ h2, getD_of_lt _ _ h2]
-  · rw [List.map_map]
-    apply List.map_congr_left
-    intro y hy
-    have hy' : y < m := hl ▸ List.mem_range.1 hy
-    simp only [Function.comp]
-    have hnot : i.length + y ∉ List.range i.length := by simp
-    have hmemq : y ∈ q := hq.mem hy'
-    have hj : q.idxOf y < q.length := List.idxOf_lt_length_of_mem hmemq
-    have hnd : (q.map (i.length + ·)).Nodup := hq.2.1.map (fun a b h => by omega)
-    have hidx : (q.map (i.length + ·)).idxOf (i.length + y) = q.idxOf y := by
-      have hlt : q.idxOf y < (q.map (i.length + ·)).length := by simpa using hj
-      have hget : (q.map (i.length + ·))[q.idxOf y] = i.length + y := by
-        simp [List.getElem_idxOf hj]
-      conv => lhs; rw [← hget]
-      exact hnd.idxOf_getElem _ _
-    unfold itemOrder
-    rw [List.idxOf_append_of_notMem hnot, hidx, List.length_range, getD_append_right]
-
-theorem swapPerm_item (L m a b : Nat) (_ha : a < m) (_hb : b < m) :
-    swapPerm (L + m) (L + a) (L + b) = itemOrder L (swapPerm m a b) := by
-  unfold itemOrder
-  rw [swapPerm_eq, swapPerm_eq, List.range_add, List.map_append, List.map_map, List.map_map]
-  congr 1
-  · conv => rhs; rw [← List.map_id (List.range L)]
-    apply List.map_congr_left
-    intro k hk
-    have := List.mem_range.1 hk
-    simp only [id, swapFn]
-    split <;> (try split) <;> omega
-  · apply List.map_congr_left
-    intro k _
-    simp only [Function.comp, swapFn]
-    split <;> (try split) <;> (try split) <;> (try split) <;> omega
-
-/-- op_is_reindex for `transpose_numer` / `transpose_denom` (item part): the NumPy call the code makes,
-    `np.swapaxes(values, len(shape)+a1, len(shape)+a2)`, permutes the ITEM index only — the leading index `i`
-    is untouched, so the mask (handed over as is) still belongs to the same elements. -/
-theorem transpose_items_is_reindex {α} (vals : Arr α) (shape item : Shape) (a1 a2 : Nat)
-    (hv : vals.shape = shape ++ item) (h1 : a1 < item.length) (h2 : a2 < item.length) :
-    ∃ q, IsPerm item.length q ∧ ∃ v',
-      NpShape.swapaxes vals ((shape.length + a1 : Nat) : Int) ((shape.length + a2 : Nat) : Int) = .ok v' ∧
-      v'.shape = shape ++ permute q item ∧
-      ∀ i k : Index, i.length = shape.length → k.length = item.length →
-        v'.get (i ++ k) = vals.get (i ++ unpermute q k) := by
-  have hq := swapPerm_isPerm h1 h2
-  have hL : vals.shape.length = shape.length + item.length := by rw [hv, List.length_append]
-  have e1 : NpShape.normAxis vals.shape.length ((shape.length + a1 : Nat) : Int) = .ok (shape.length + a1) := by
-    have := normAxis_of_nonneg (n := vals.shape.length) (b := ((shape.length + a1 : Nat) : Int)) (by omega) (by rw [hL]; omega)
-    rwa [Int.toNat_natCast] at this
-  have e2 : NpShape.normAxis vals.shape.length ((shape.length + a2 : Nat) : Int) = .ok (shape.length + a2) := by
-    have := normAxis_of_nonneg (n := vals.shape.length) (b := ((shape.length + a2 : Nat) : Int)) (by omega) (by rw [hL]; omega)
-    rwa [Int.toNat_natCast] at this
-  refine ⟨swapPerm item.length a1 a2, hq, _, swapaxes_ok vals e1 e2, ?_, ?_⟩
-  · show permute _ vals.shape = _
-    rw [hL, swapPerm_item _ _ _ _ h1 h2, hv, permute_item_shape shape item hq rfl]
-  · intro i k hi hk
-    show vals.get (unpermute _ (i ++ k)) = _
-    rw [hL, swapPerm_item _ _ _ _ h1 h2, ← hi, unpermute_item_index i k hq hk]
-
-/-! ## 6. item restructuring: join_items / split_items / casts re-label the item axes and touch nothing else -/
-
-/-- what the constructor keeps: the values array as given; the full shape is only re-split -/
-theorem construct_ok {α} {cls : Cls} {vals : Arr α} {mask : Mask} {nr dr : Nat} {q : Q0 α}
-    (h : construct cls vals mask nr dr = .ok q) :
-    q.cls = cls ∧ q.vals = vals ∧ q.shape ++ q.numer ++ q.denom = vals.shape ∧
-      q.numer.length = nr ∧ q.denom.length = dr ∧ suitableMask mask q.shape = .ok q.mask := by
-  unfold construct at h
-  split at h; · cases h
-  split at h; · cases h
-  split at h; · cases h
-  rename_i hlen
-  simp only at h
-  split at h; · cases h
-  cases hm : suitableMask mask (List.take (vals.shape.length - dr - nr) vals.shape) with
-  | error e => simp only [hm] at h; cases h
-  | ok m =>
-    simp only [hm] at h
-    injection h with h
-    subst h
-    have hlen' : nr + dr ≤ vals.shape.length := by omega
-    refine ⟨rfl, rfl, ?_, ?_, ?_, hm⟩
-    · show List.take _ vals.shape ++ List.take nr (List.drop _ vals.shape) ++ List.drop _ vals.shape = _
-      have e1 : vals.shape.length - dr = (vals.shape.length - dr - nr) + nr := by omega
-      conv => lhs; rw [List.append_assoc]
-      conv => lhs; arg 2; arg 2; rw [e1, ← List.drop_drop]
-      rw [List.take_append_drop, List.take_append_drop]
-    · show (List.take nr (List.drop _ vals.shape)).length = nr
-      rw [List.length_take, List.length_drop]; omega
-    · show (List.drop _ vals.shape).length = dr
-      rw [List.length_drop]; omega
-
-/-- a scalar mask stays the scalar; an array mask of the right shape stays that array -/
-theorem suitableMask_at {m m' : Mask} {shape : Shape} (h : suitableMask m shape = .ok m')
-    (hm : ∀ a, m = .arr a → a.shape = shape) : m' = m := by
-  unfold suitableMask at h
-  cases m with
-  | all b => injection h with h; exact h.symm
-  | arr a =>
-    simp only [hm a rfl, if_true] at h
-    injection h with h; exact h.symm
-
-/-- `Qube.cast` hands over the values array and the item split unchanged; only the class changes -/
-theorem cast_ok {α} (q q' : Q0 α) : ∀ (cs : List Cls), ItemOps.cast q cs = .ok q' →
-    q'.vals = q.vals ∧ q'.shape ++ q'.numer ++ q'.denom = q.vals.shape ∨ q' = q
-  | [], h => by unfold ItemOps.cast at h; injection h with h; exact Or.inr h.symm
+/-- `Qube.cast`: class may change, nothing else does -/
+theorem cast_keeps {q q' : Q0 α} (hwf : WF0 q) : ∀ (cs : List Cls), ItemOps.cast q cs = .ok q' →
+    q'.vals = q.vals ∧ q'.shape = q.shape ∧ q'.numer = q.numer ∧ q'.denom = q.denom ∧ q'.mask = q.mask ∧ WF0 q'
+  | [], h => by
+    unfold ItemOps.cast at h; injection h with h; subst h; exact ⟨rfl, rfl, rfl, rfl, rfl, hwf⟩
   | c :: cs, h => by
     unfold ItemOps.cast at h
     split at h
-    · injection h with h; exact Or.inr h.symm
+    · injection h with h; subst h; exact ⟨rfl, rfl, rfl, rfl, rfl, hwf⟩
     · split at h
-      · exact cast_ok q q' cs h
+      · exact cast_keeps hwf cs h
       · split at h
-        · exact cast_ok q q' cs h
-        · obtain ⟨_, hv, hs, _⟩ := construct_ok h
-          exact Or.inl ⟨hv, hv ▸ hs⟩
+        · exact cast_keeps hwf cs h
+        · obtain ⟨_, h1, h2, h3, h4, h5, h6⟩ := construct_split h hwf.vshape rfl rfl hwf.mshape
+          exact ⟨h1, h2, h3, h4, h5, h6⟩
 
-/-- join_items: the result holds the SAME values array (every element, same order); the item axes
-    are merely re-labelled numerator ++ denominator → numerator -/
-theorem join_items_vals {α} (q r : Q α) (cs : List Cls) (hwf : q.base.shape ++ q.base.numer ++ q.base.denom = q.base.vals.shape)
+theorem joinItems_spec {q r : Q α} {cs : List Cls} (hwf : WF0 q.base) (hd : q.base.denom ≠ [])
     (h : joinItems q cs = .ok r) :
-    r.base.vals = q.base.vals ∧ r.base.shape ++ r.base.numer ++ r.base.denom = q.base.vals.shape := by
+    r.base.vals = q.base.vals ∧ r.base.shape = q.base.shape ∧ r.base.numer = q.base.numer ++ q.base.denom ∧
+      r.base.denom = [] ∧ r.base.mask = q.base.mask ∧ WF0 r.base := by
   unfold joinItems at h
-  split at h
-  · injection h with h; subst h; exact ⟨rfl, hwf⟩
-  · simp only [bind, Except.bind, pure, Except.pure] at h
-    cases h1 : construct Cls.qube q.base.vals q.base.mask (q.base.numer.length + q.base.denom.length) 0 with
-    | error e => rw [h1] at h; cases h
-    | ok obj =>
-      rw [h1] at h
-      simp only at h
-      cases h2 : ItemOps.cast obj cs with
-      | error e => rw [h2] at h; cases h
-      | ok obj' =>
-        rw [h2] at h
-        simp only at h
-        injection h with h; subst h
-        obtain ⟨_, hv, hs, _⟩ := construct_ok h1
-        rcases cast_ok obj obj' cs h2 with ⟨e1, e2⟩ | e
-        · exact ⟨e1.trans hv, hv ▸ e2⟩
-        · subst e; exact ⟨hv, hs⟩
+  rw [if_neg (by intro e; exact hd (List.length_eq_zero_iff.1 e))] at h
+  obtain ⟨obj, h1, h⟩ := bind_ok.1 h
+  obtain ⟨obj', h2, h⟩ := bind_ok.1 h
+  have := pure_ok.1 h; subst this
+  obtain ⟨_, a1, a2, a3, a4, a5, a6⟩ := construct_split (s := q.base.shape) (n := q.base.numer ++ q.base.denom) (d := [])
+    h1 (by rw [hwf.vshape, List.append_nil, List.append_assoc]) (by rw [List.length_append]) rfl hwf.mshape
+  obtain ⟨b1, b2, b3, b4, b5, b6⟩ := cast_keeps a6 cs h2
+  exact ⟨b1.trans a1, b2.trans a2, b3.trans a3, b4.trans a4, b5.trans a5, b6⟩
 
-/-- split_items: likewise the same values array, re-split after `nrank` item axes -/
-theorem split_items_vals {α} (q r : Q α) (nrank : Nat) (cs : List Cls) (h : splitItems q nrank cs = .ok r) :
-    r.base.vals = q.base.vals ∧ r.base.shape ++ r.base.numer ++ r.base.denom = q.base.vals.shape := by
+theorem splitItems_spec {q r : Q α} {cs : List Cls} {k : Nat} {n d : Shape} (hwf : WF0 q.base)
+    (hsplit : q.base.numer ++ q.base.denom = n ++ d) (hk : n.length = k) (h : splitItems q k cs = .ok r) :
+    r.base.vals = q.base.vals ∧ r.base.shape = q.base.shape ∧ r.base.numer = n ∧ r.base.denom = d ∧
+      r.base.mask = q.base.mask ∧ WF0 r.base := by
+  have hlen : q.base.numer.length + q.base.denom.length = n.length + d.length := by
+    rw [← List.length_append, hsplit, List.length_append]
   unfold splitItems at h
   simp only at h
-  split at h; · cases h
-  simp only [bind, Except.bind, pure, Except.pure] at h
-  cases h1 : construct Cls.qube q.base.vals q.base.mask nrank (q.base.numer.length + q.base.denom.length - nrank) with
-  | error e => rw [h1] at h; cases h
-  | ok obj =>
-    rw [h1] at h
-    simp only at h
-    cases h2 : ItemOps.cast obj cs with
-    | error e => rw [h2] at h; cases h
-    | ok obj' =>
-      rw [h2] at h
-      simp only at h
-      injection h with h; subst h
-      obtain ⟨_, hv, hs, _⟩ := construct_ok h1
-      rcases cast_ok obj obj' cs h2 with ⟨e1, e2⟩ | e
-      · exact ⟨e1.trans hv, hv ▸ e2⟩
-      · subst e; exact ⟨hv, hs⟩
+  rw [if_neg (by omega)] at h
+  obtain ⟨obj, h1, h⟩ := bind_ok.1 h
+  obtain ⟨obj', h2, h⟩ := bind_ok.1 h
+  have := pure_ok.1 h; subst this
+  obtain ⟨_, a1, a2, a3, a4, a5, a6⟩ := construct_split (s := q.base.shape) (n := n) (d := d)
+    h1 (by rw [hwf.vshape, List.append_assoc, hsplit, List.append_assoc]) hk (by omega) hwf.mshape
+  obtain ⟨b1, b2, b3, b4, b5, b6⟩ := cast_keeps a6 cs h2
+  exact ⟨b1.trans a1, b2.trans a2, b3.trans a3, b4.trans a4, b5.trans a5, b6⟩
 
-example : (splitItems (α := Int) ⟨⟨.matrix, [2], [2, 3], [], ⟨[2, 2, 3], fun _ => 0⟩, .all false⟩, []⟩ 1 [.vector]).toOption.map
-    (fun r => (r.base.cls, r.base.numer, r.base.denom)) = some (.vector, [2], [3]) := by decide
+/-- **inverse pair**: `join_items` followed by `split_items(nrank)` gives back values, mask and the whole
+    shape / numerator / denominator split (whatever classes are asked for) -/
+theorem split_join {q r r2 : Q α} {cs cs2 : List Cls} (hwf : WF0 q.base) (hd : q.base.denom ≠ [])
+    (hj : joinItems q cs = .ok r) (hs : splitItems r q.base.numer.length cs2 = .ok r2) :
+    r2.base.vals = q.base.vals ∧ r2.base.shape = q.base.shape ∧ r2.base.numer = q.base.numer ∧
+      r2.base.denom = q.base.denom ∧ r2.base.mask = q.base.mask := by
+  obtain ⟨a1, a2, a3, a4, a5, a6⟩ := joinItems_spec hwf hd hj
+  obtain ⟨b1, b2, b3, b4, b5, _⟩ := splitItems_spec (n := q.base.numer) (d := q.base.denom) a6
+    (by rw [a3, a4, List.append_nil]) rfl hs
+  exact ⟨b1.trans a1, b2.trans a2, b3, b4, b5.trans a5⟩
+
+/-- **inverse pair**: `split_items(k)` followed by `join_items` gives back an object without denominator -/
+theorem join_split {q r r2 : Q α} {cs cs2 : List Cls} {k : Nat} (hwf : WF0 q.base) (hden : q.base.denom = [])
+    (hk : k < q.base.numer.length) (hs : splitItems q k cs = .ok r) (hj : joinItems r cs2 = .ok r2) :
+    r2.base.vals = q.base.vals ∧ r2.base.shape = q.base.shape ∧ r2.base.numer = q.base.numer ∧
+      r2.base.denom = [] ∧ r2.base.mask = q.base.mask := by
+  obtain ⟨a1, a2, a3, a4, a5, a6⟩ := splitItems_spec (n := q.base.numer.take k) (d := q.base.numer.drop k) hwf
+    (by rw [hden, List.append_nil, List.take_append_drop]) (by rw [List.length_take]; omega) hs
+  have hdne : r.base.denom ≠ [] := by
+    rw [a4]; intro e
+    have := congrArg List.length e
+    rw [List.length_drop] at this; simp at this; omega
+  obtain ⟨b1, b2, b3, b4, b5, _⟩ := joinItems_spec a6 hdne hj
+  exact ⟨b1.trans a1, b2.trans a2, by rw [b3, a3, a4, List.take_append_drop], b4, b5.trans a5⟩
+
+/-! ## reshape_numer / flatten_numer / as_row / as_column: the numerator part of the index is re-labelled,
+       leading and denominator parts are untouched -/
+
+/-- reshaping the middle block of `s ++ n ++ d` to `n'` (same size) moves `(i, k', kd)` from `(i, π k', kd)` -/
+theorem reshape_mid (s n n' d : Shape) (i k' kd : Index) (hsz : size n' = size n) (hi : Valid s i)
+    (hk : Valid n' k') (hkd : Valid d kd) :
+    unravel (s ++ n ++ d) (ravel (s ++ n' ++ d) (i ++ k' ++ kd)) = i ++ unravel n (ravel n' k') ++ kd := by
+  have hv : Valid (s ++ n') (i ++ k') := NpShape.valid_append hi hk
+  rw [reshape_lead_item (s ++ n) (s ++ n') d (i ++ k') kd (by rw [size_append, size_append, hsz]) hv hkd]
+  congr 1
+  rw [ravel_append s n' i k' (NpShape.valid_length hi), hsz,
+    unravel_append s n _ _ (ravel_lt hi) (hsz ▸ ravel_lt hk), unravel_ravel hi]
+
+theorem size_ofNats_int (s : Shape) : prodInt (ofNats s) = (size s : Int) := prodInt_ofNats s
+
+/-- op_is_reindex (item part) for `reshape_numer` with a target `new` of the numerator's size, one object -/
+theorem reshapeNumer0_reindex {q r : Q0 α} {new : Shape} {cs : List Cls} (hwf : WF0 q)
+    (h : reshapeNumer0 q (ofNats new) cs = .ok r) :
+    size new = size q.numer ∧ r.shape = q.shape ∧ r.numer = new ∧ r.denom = q.denom ∧ r.mask = q.mask ∧ WF0 r ∧
+    ∀ i k' kd : Index, Valid q.shape i → Valid new k' → Valid q.denom kd →
+      r.vals.get (i ++ k' ++ kd) = q.vals.get (i ++ unravel q.numer (ravel new k') ++ kd) := by
+  unfold reshapeNumer0 at h
+  split at h; · cases h
+  rename_i hsz
+  have hsz' : size new = size q.numer := by
+    have : (size q.numer : Int) = prodInt (ofNats new) := by simpa using hsz
+    rw [prodInt_ofNats] at this; exact_mod_cast this.symm
+  obtain ⟨nv, hnv, h⟩ := bind_ok.1 h
+  obtain ⟨obj, h1, h2⟩ := bind_ok.1 h
+  have htarget : ofNats q.shape ++ ofNats new ++ ofNats q.denom = ofNats (q.shape ++ new ++ q.denom) := by
+    unfold ofNats; rw [List.map_append, List.map_append]
+  have hres : resolve (size q.vals.shape) (ofNats (q.shape ++ new ++ q.denom)) = .ok (q.shape ++ new ++ q.denom) := by
+    have := resolve_ofNats (q.shape ++ new ++ q.denom)
+    rwa [show size (q.shape ++ new ++ q.denom) = size q.vals.shape by
+      rw [hwf.vshape, size_append, size_append, size_append, size_append, hsz']] at this
+  rw [htarget, reshape_eq q.vals _ _ hres] at hnv
+  injection hnv with hnv; subst hnv
+  obtain ⟨_, a1, a2, a3, a4, a5, a6⟩ := construct_split (s := q.shape) (n := new) (d := q.denom) h1 rfl
+    (by unfold ofNats; simp) rfl hwf.mshape
+  obtain ⟨b1, b2, b3, b4, b5, b6⟩ := cast_keeps a6 cs h2
+  refine ⟨hsz', b2.trans a2, b3.trans a3, b4.trans a4, b5.trans a5, b6, ?_⟩
+  intro i k' kd hi hk hkd
+  rw [b1, a1]
+  show q.vals.get (unravel q.vals.shape (ravel (q.shape ++ new ++ q.denom) (i ++ k' ++ kd))) = _
+  rw [hwf.vshape, reshape_mid q.shape q.numer new q.denom i k' kd hsz' hi hk hkd]
+
+/-- **inverse pair**: `as_row` / `as_column` / any `reshape_numer` followed by `reshape_numer` back to the
+    original numerator gives back every element, the mask and the shapes -/
+theorem reshapeNumer_roundtrip {q r r2 : Q0 α} {new : Shape} {cs cs2 : List Cls} (hwf : WF0 q)
+    (h1 : reshapeNumer0 q (ofNats new) cs = .ok r) (h2 : reshapeNumer0 r (ofNats q.numer) cs2 = .ok r2) :
+    r2.shape = q.shape ∧ r2.numer = q.numer ∧ r2.denom = q.denom ∧ r2.mask = q.mask ∧
+    ∀ i k kd : Index, Valid q.shape i → Valid q.numer k → Valid q.denom kd →
+      r2.vals.get (i ++ k ++ kd) = q.vals.get (i ++ k ++ kd) := by
+  obtain ⟨s1, a2, a3, a4, a5, a6, a7⟩ := reshapeNumer0_reindex hwf h1
+  obtain ⟨_, b2, b3, b4, b5, _, b7⟩ := reshapeNumer0_reindex a6 h2
+  refine ⟨b2.trans a2, b3, b4.trans a4, b5.trans a5, fun i k kd hi hk hkd => ?_⟩
+  rw [b7 i k kd (a2 ▸ hi) hk (a4 ▸ hkd), a3]
+  have hlt : ravel q.numer k < size new := s1 ▸ ravel_lt hk
+  rw [a7 i _ kd hi (unravel_valid new _ hlt) hkd, ravel_unravel new _ hlt, unravel_ravel hk]
+
+/-! ## non-vacuity: a concrete object with a derivative goes through the object-level functions -/
+
+def exQ : Q Int :=
+  ⟨⟨.vector, [2, 3], [2], [], ⟨[2, 3, 2], fun i => (ravel [2, 3, 2] i : Int)⟩, .arr ⟨[2, 3], fun i => i == [0, 1]⟩⟩,
+   [("t", ⟨.vector, [2, 3], [2], [3], ⟨[2, 3, 2, 3], fun i => (100 + ravel [2, 3, 2, 3] i : Int)⟩, .all false⟩)]⟩
+
+example : swapNorm 2 (-1) 0 = .ok (1, 0) ∧
+    ((swapAxes exQ (-1) 0 true).toOption.map fun r => (r.base.shape, r.derivs.map (·.2.shape))) = some ([3, 2], [[3, 2]]) := by
+  decide
+example : effRank 2 (some 3) = .ok 3 ∧ rollNorm 3 (-1) 0 = .ok (2, 0) ∧
+    ((rollAxis exQ (-1) 0 true (some 3)).toOption.map fun r => (r.base.shape, r.derivs.map (·.2.shape)))
+      = some ([3, 1, 2], [[3, 1, 2]]) := by
+  decide
+example : resolve 6 [-1, 2] = .ok [3, 2] ∧
+    ((Shaper.reshape exQ [-1, 2] true).toOption.map fun r => (r.base.shape, r.derivs.map (·.2.shape)))
+      = some ([3, 2], [[3, 2]]) := by
+  decide
 
 end PMV.C15
